@@ -1,26 +1,37 @@
 #!/usr/bin/env python3
-"""rs2lean.py — translate small, loop-free integer functions of /repo from Rust to Lean 4.
+"""rs2lean.py — translate functions of /repo from Rust to Lean 4 (integer arithmetic, loops, arrays,
+structs by value, fieldless enums, Option/Result, bit-writer functions).
 
-Tie (a) of DESIGN.md section 4 for CONTROL FLOW of arithmetic helpers: on every run the bodies
-of the functions listed in tools/rs2lean_items.json are parsed from the current working tree and
-emitted as Lean definitions (lean/BV/Gen/Fn<Cnn>.lean, one file per property so that a change to
-one property's function cannot break another property's build).  Property files prove that each
-generated definition equals the hand-written model (BV/Props/<Cnn>Gen.lean); a change of the Rust
-body changes the Lean definition and the kernel re-checks the equation against the new text.
+Tie (a) of DESIGN.md section 4 for CONTROL FLOW: on every run the bodies of the functions listed in
+tools/rs2lean_items.json are parsed from the current working tree and emitted as Lean definitions
+(lean/BV/Gen/Fn<Cnn>.lean, one file per property so that a change to one property's function cannot
+break another property's build).  Property files prove that each generated definition equals the
+hand-written model (BV/Props/<Cnn>Gen.lean); a change of the Rust body changes the Lean definition and
+the kernel re-checks the equation against the new text.
 
 Semantics produced (release build semantics; recorded in the trusted base):
   * uN / usize (= u64) values are `Nat` kept below 2^N by every operation: + - * and the
     wrapping_* methods wrap modulo 2^N (a debug build would panic on plain + - * overflow: the
-    models' theorems state the no-overflow ranges separately where a property needs them);
+    `_ok` companion, below, carries those conditions);
   * iN values are `Int` kept in [-2^(N-1), 2^(N-1)) by `BV.Rs.wrapS`;
   * `a << b`, `a >> b` mask the shift amount with N-1 as release builds do;
-  * `as` casts truncate / sign-extend as Rust does; `&mut` scalar parameters become extra results
-    (returned in parameter order after the function's own result);
-  * `x[i]` on a slice parameter is `List.getD x i 0` (Rust would panic out of range);
-  * assert!/debug_assert! are dropped (listed in the generated doc comment).
-Anything outside this subset (loops, references to non-scalar state, generics, floats) is an error
-for that function only: it is then missing from the generated file and the module that needs it
-does not compile — a broken proof obligation, reported as such.
+  * `as` casts truncate / sign-extend as Rust does; `&mut` parameters (scalars, slices, structs,
+    `&mut self`) become extra results (returned in parameter order after the function's own result);
+  * slices and arrays are `List`; `x[i]` is `List.getD x i d`, `x[i] = v` is `List.set` (Rust would
+    panic out of range), `x[a..b]` is `BV.Rs.slice`;
+  * structs listed under "structs_v" become Lean structures holding their supported fields;
+    structs listed under "structs" are flattened into the scalar fields the body reads;
+  * fieldless enums are their discriminants (`Nat`);
+  * `for i in a..b` is `BV.Rs.forRange*`, `while`/`loop` are `BV.Rs.whileLoop*` with fuel 2^64
+    (or the item's "fuel"); the loop state is the tuple of the variables the body assigns;
+  * assert!/debug_assert! are dropped (listed in the generated doc comment);
+  * an item with "safe": true also gets `<name>_ok : … → Bool`: the conjunction, along the executed
+    path, of every index-in-bounds, no-overflow (debug build), shift-in-range, non-zero-divisor,
+    `unwrap`-on-some and assert condition — "the Rust function does not panic on these arguments".
+Anything outside this subset is an error for that function only: it is then missing from the generated
+file and the module that needs it does not compile — a broken proof obligation, reported as such.
+
+usage: rs2lean.py [OUTDIR] [--repo PATH] [--items FILE] [--only KEY[,KEY..]]
 """
 import json, os, sys
 sys.path.insert(0, os.path.dirname(os.path.abspath(__file__)))
@@ -33,34 +44,70 @@ class Unsupported(Exception):
     pass
 
 
+class Retry(Exception):
+    """a variable initialised with an unsuffixed literal turned out to have another integer type"""
+    def __init__(self, name, ty):
+        Exception.__init__(self, name)
+        self.name, self.ty = name, ty
+
+
 INT_TYPES = {"u8": ("U", 8), "u16": ("U", 16), "u32": ("U", 32), "u64": ("U", 64), "usize": ("U", 64),
              "i8": ("I", 8), "i16": ("I", 16), "i32": ("I", 32), "i64": ("I", 64), "isize": ("I", 64)}
 BOOL = ("B", 1)
+UNIT = ("T", [])
+TYARGS = {}     # type-parameter substitution of the item being translated (e.g. {"T": ("U", 64)})
 
 
-def lean_ty(t):
+def lean_ty(t, paren=False):
+    def p(s):
+        return "(" + s + ")" if paren and " " in s else s
     if t == BOOL:
         return "Bool"
-    if t[0] == "U":
+    if t[0] in ("U", "E"):
         return "Nat"
     if t[0] == "I":
         return "Int"
     if t[0] == "S":
-        return "List " + lean_ty(t[1])
+        return p("List " + lean_ty(t[1], True))
     if t[0] == "T":
-        return " × ".join(lean_ty(x) for x in t[1])
+        if not t[1]:
+            return "Unit"
+        return p(" × ".join(lean_ty(x, True) for x in t[1]))
     if t[0] == "O":
-        return "Option (%s)" % lean_ty(t[1])
+        return p("Option (%s)" % lean_ty(t[1]))
     if t[0] == "W":
-        return "List BV.Rs.WOp"
+        return p("List BV.Rs.WOp")
+    if t[0] == "ST":
+        return t[1]
     raise Unsupported("type %r" % (t,))
 
 
+def default_of(t):
+    if t == BOOL:
+        return "false"
+    if t[0] in ("U", "E"):
+        return "0"
+    if t[0] == "I":
+        return "(0 : Int)"
+    if t[0] == "S":
+        return "[]"
+    if t[0] == "O":
+        return "none"
+    if t[0] == "T":
+        return "(" + ", ".join(default_of(x) for x in t[1]) + ")"
+    return "default"
+
+
 # ------------------------------------------------------------------ parser (tokens -> AST)
+ASSIGN_OPS = ("=", "+=", "-=", "*=", "/=", "%=", "<<=", ">>=", "&=", "|=", "^=")
+
+
 class P:
     def __init__(self, toks):
         self.t = toks
         self.i = 0
+        self.nostruct = 0
+        self.labels = []
 
     def peek(self, k=0):
         return self.t[self.i + k][1] if self.i + k < len(self.t) else None
@@ -69,6 +116,8 @@ class P:
         return self.t[self.i + k][0] if self.i + k < len(self.t) else None
 
     def eat(self, v=None):
+        if self.i >= len(self.t):
+            raise Unsupported("unexpected end of input")
         tok = self.t[self.i]
         if v is not None and tok[1] != v:
             raise Unsupported("expected %r, found %r (token %d)" % (v, tok[1], self.i))
@@ -97,11 +146,16 @@ class P:
         if self.peek() == "(":
             self.eat()
             parts = []
+            trailing = False
             while self.peek() != ")":
                 parts.append(self.ty())
+                trailing = False
                 if self.peek() == ",":
                     self.eat()
+                    trailing = True
             self.eat(")")
+            if len(parts) == 1 and not trailing:
+                return parts[0]
             return ("T", parts)
         name = self.eat()
         while self.peek() == "::":
@@ -111,6 +165,8 @@ class P:
             return INT_TYPES[name]
         if name == "bool":
             return BOOL
+        if name in TYARGS:
+            return TYARGS[name]
         if name in ("Result", "Option") and self.peek() == "<":
             self.eat("<")
             inner = self.ty()
@@ -126,6 +182,18 @@ class P:
             self.eat(">")
             return ("T", [inner, inner])
         if self.peek() == "<":
+            if TYARGS:
+                # generic struct instantiated by the item's "tyargs": the arguments are dropped
+                d = 0
+                while True:
+                    x = self.eat()
+                    if x == "<":
+                        d += 1
+                    elif x == ">":
+                        d -= 1
+                        if d == 0:
+                            break
+                return ("ST", name)
             raise Unsupported("generic type %s" % name)
         return ("ST", name)
 
@@ -150,9 +218,7 @@ class P:
                     self.eat()
                     mut = True
                 self.eat("self")
-                if mut:
-                    raise Unsupported("&mut self receiver")
-                params.append(("self", ("R", False, ("ST", "Self"))))
+                params.append(("self", ("R", mut, ("ST", "Self"))))
             elif pn == "self":
                 params.append(("self", ("ST", "Self")))
             else:
@@ -165,60 +231,207 @@ class P:
         if self.peek() == "->":
             self.eat()
             ret = self.ty()
+        if self.peek() == "where":
+            raise Unsupported("where clause")
         body = self.block()
         return name, params, ret, body
 
     def block(self):
         self.eat("{")
+        saved, self.nostruct = self.nostruct, 0
         stmts = []
         while self.peek() != "}":
+            if self.peek() == ";":
+                self.eat()
+                continue
             stmts.append(self.stmt())
         self.eat("}")
+        self.nostruct = saved
         return stmts
+
+    def pattern(self):
+        """let / for / if-let patterns: name | _ | (p, ..) | Some(p) | Ok(p) | Err(p) | None | path | literal"""
+        if self.peek() in ("&", "ref"):
+            self.eat()
+            return self.pattern()
+        if self.peek() == "mut":
+            self.eat()
+            return self.pattern()
+        if self.peek() == "_":
+            self.eat()
+            return ("pwild",)
+        if self.peek() == "(":
+            self.eat()
+            parts = []
+            trailing = False
+            while self.peek() != ")":
+                parts.append(self.pattern())
+                trailing = False
+                if self.peek() == ",":
+                    self.eat()
+                    trailing = True
+            self.eat(")")
+            if len(parts) == 1 and not trailing:
+                return parts[0]
+            return ("ptuple", parts)
+        if self.kind() in ("num", "char") or self.peek() == "-":
+            lo = self.unary()
+            if self.peek() == "..=":
+                self.eat()
+                return ("prange", lo, self.unary())
+            return ("plit", lo)
+        if self.kind() == "id":
+            path = [self.eat()]
+            while self.peek() == "::":
+                self.eat()
+                path.append(self.eat())
+            if self.peek() == "(":
+                self.eat()
+                inner = []
+                while self.peek() != ")":
+                    inner.append(self.pattern())
+                    if self.peek() == ",":
+                        self.eat()
+                self.eat(")")
+                if len(path) == 1 and path[0] in ("Some", "Ok") and len(inner) == 1:
+                    return ("psome", inner[0])
+                if len(path) == 1 and path[0] == "Err" and len(inner) == 1:
+                    return ("pnone",)
+                raise Unsupported("pattern %s(..)" % "::".join(path))
+            if len(path) == 1 and path[0] == "None":
+                return ("pnone",)
+            if len(path) == 1 and path[0] in ("true", "false"):
+                return ("plit", ("bool", path[0] == "true"))
+            if len(path) == 1 and not (path[0][0].isupper()):
+                return ("pvar", path[0])
+            return ("plit", ("path", path))
+        raise Unsupported("pattern starting with %r" % self.peek())
+
+    def macro_args(self):
+        """the token slice between the parentheses of `name!( ... )`, split at top-level commas"""
+        self.eat("(")
+        depth = 1
+        parts = [[]]
+        while True:
+            tok = self.t[self.i]
+            self.i += 1
+            if tok[1] in ("(", "[", "{"):
+                depth += 1
+            elif tok[1] in (")", "]", "}"):
+                depth -= 1
+                if depth == 0:
+                    break
+            if tok[1] == "," and depth == 1:
+                parts.append([])
+            else:
+                parts[-1].append(tok)
+        return [p for p in parts if p]
 
     def stmt(self):
         v = self.peek()
-        if v == "let":
+        if v in ("let", "static", "const"):
             self.eat()
-            if self.peek() == "mut":
-                self.eat()
-            name = self.eat()
+            pat = self.pattern()
             ty = None
             if self.peek() == ":":
                 self.eat()
                 ty = self.ty()
+            if self.peek() == ";":
+                self.eat()
+                if pat[0] != "pvar":
+                    raise Unsupported("uninitialised pattern binding")
+                return ("letu", pat[1], ty)
             self.eat("=")
             e = self.expr()
             self.eat(";")
-            return ("let", name, ty, e)
-        if v in ("assert", "debug_assert", "assert_eq", "debug_assert_eq") and self.peek(1) == "!":
+            if pat[0] == "pvar":
+                return ("let", pat[1], ty, e)
+            return ("letp", pat, ty, e)
+        if v in ("assert", "debug_assert", "assert_eq", "debug_assert_eq", "assert_ne", "debug_assert_ne") and self.peek(1) == "!":
             start = self.i
             self.eat()
             self.eat("!")
-            depth = 0
-            while True:
-                x = self.eat()
-                if x == "(":
-                    depth += 1
-                elif x == ")":
-                    depth -= 1
-                    if depth == 0:
-                        break
+            parts = self.macro_args()
             text = " ".join(t[1] for t in self.t[start:self.i])
             if self.peek() == ";":
                 self.eat()
-            return ("assert", text)
+            cond = None
+            try:
+                es = []
+                for ptoks in parts[:2 if ("_eq" in v or "_ne" in v) else 1]:
+                    sub = P(list(ptoks))
+                    es.append(sub.expr())
+                    if sub.i != len(ptoks):
+                        raise Unsupported("assert argument")
+                if "_eq" in v:
+                    cond = ("bin", "==", es[0], es[1])
+                elif "_ne" in v:
+                    cond = ("bin", "!=", es[0], es[1])
+                else:
+                    cond = es[0]
+            except (Unsupported, IndexError):
+                cond = None
+            return ("assert", text, cond)
         if v == "return":
             self.eat()
-            e = None if self.peek() == ";" else self.expr()
+            e = None if self.peek() in (";", "}") else self.expr()
             if self.peek() == ";":
                 self.eat()
             return ("return", e)
-        if v in ("while", "loop", "for") or self.kind() == "life":
-            raise Unsupported("loop")
+        if v == "break":
+            self.eat()
+            if self.kind() == "life" and self.labels and self.labels[-1] == self.peek():
+                self.eat()      # the label of the innermost loop: a plain break
+            if self.peek() != ";" and self.peek() != "}":
+                raise Unsupported("break with a label or value")
+            if self.peek() == ";":
+                self.eat()
+            return ("break",)
+        if v == "continue":
+            self.eat()
+            if self.kind() == "life" and self.labels and self.labels[-1] == self.peek():
+                self.eat()
+            if self.peek() != ";" and self.peek() != "}":
+                raise Unsupported("continue with a label")
+            if self.peek() == ";":
+                self.eat()
+            return ("continue",)
+        label = None
+        if self.kind() == "life":
+            if self.peek(1) != ":" or self.peek(2) not in ("while", "loop", "for"):
+                raise Unsupported("label")
+            label = self.eat()
+            self.eat(":")
+            v = self.peek()
+        if v in ("while", "loop", "for"):
+            self.labels.append(label)
+            try:
+                if v == "while":
+                    self.eat()
+                    if self.peek() == "let":
+                        raise Unsupported("while let")
+                    self.nostruct += 1
+                    c = self.expr()
+                    self.nostruct -= 1
+                    body = self.block()
+                    return ("while", c, body)
+                if v == "loop":
+                    self.eat()
+                    body = self.block()
+                    return ("while", ("bool", True), body)
+                self.eat()
+                pat = self.pattern()
+                self.eat("in")
+                self.nostruct += 1
+                it = self.expr()
+                self.nostruct -= 1
+                body = self.block()
+                return ("for", pat, it, body)
+            finally:
+                self.labels.pop()
         e = self.expr()
         nxt = self.peek()
-        if nxt in ("=", "+=", "-=", "*=", "/=", "%=", "<<=", ">>=", "&=", "|=", "^="):
+        if nxt in ASSIGN_OPS:
             self.eat()
             rhs = self.expr()
             self.eat(";")
@@ -235,11 +448,17 @@ class P:
 
     def expr(self, level=0, nostruct=False):
         if level == 0:
+            if self.peek() in ("..", "..="):
+                incl = self.eat() == "..="
+                hi = None if self.peek() in ("]", ")", "{", ",", ";") else self.expr(1)
+                return ("range", None, hi, incl)
             lhs = self.expr(1)
             if self.peek() == "..":
                 self.eat()
+                if self.peek() in ("]", ")", "{", ",", ";", "}"):
+                    return ("range", lhs, None, False)
                 rhs = self.expr(1)
-                return ("tuple", [lhs, rhs])
+                return ("range", lhs, rhs, False)
             return lhs
         if level - 1 >= len(self.PREC):
             return self.cast()
@@ -274,7 +493,22 @@ class P:
                 self.eat()
                 return ("un", "&mut", self.unary())
             return self.unary()
+        if v == "&&":       # `&&x`
+            self.eat()
+            return self.unary()
         return self.postfix()
+
+    def args(self):
+        self.eat("(")
+        saved, self.nostruct = self.nostruct, 0
+        args = []
+        while self.peek() != ")":
+            args.append(self.expr())
+            if self.peek() == ",":
+                self.eat()
+        self.eat(")")
+        self.nostruct = saved
+        return args
 
     def postfix(self):
         e = self.primary()
@@ -283,53 +517,75 @@ class P:
             if v == "." and self.kind(1) == "id":
                 self.eat()
                 m = self.eat()
-                args = []
+                if self.peek() == "::":
+                    raise Unsupported("turbofish")
                 if self.peek() == "(":
-                    self.eat()
-                    while self.peek() != ")":
-                        args.append(self.expr())
-                        if self.peek() == ",":
-                            self.eat()
-                    self.eat(")")
-                    e = ("method", m, e, args)
+                    e = ("method", m, e, self.args())
                 else:
                     e = ("field", m, e)
+            elif v == "." and self.kind(1) == "num":
+                self.eat()
+                n = self.eat()
+                if "." in n:        # `x.0.1` is tokenised as the float `0.1`
+                    for part in n.split("."):
+                        e = ("tfield", int(part), e)
+                else:
+                    e = ("tfield", int(n), e)
             elif v == "[":
                 self.eat()
+                saved, self.nostruct = self.nostruct, 0
                 ix = self.expr()
+                if self.peek() == "..=":
+                    self.eat()
+                    ix = ("range", ix, self.expr(1), True)
+                self.nostruct = saved
                 self.eat("]")
                 e = ("index", e, ix)
+            elif v == "?":
+                raise Unsupported("`?` operator")
             else:
                 return e
 
     def match_(self):
-        """`match scrutinee { lit [| lit] => arm, ..., _ => arm }` as a chain of ifs (the scrutinee is pure)"""
+        """`match scrutinee { pat [| pat] => arm, ... }` as a chain of tests (the scrutinee is pure)"""
         self.eat("match")
+        self.nostruct += 1
         scrut = self.expr()
+        self.nostruct -= 1
         self.eat("{")
         arms = []
         default = None
         while self.peek() != "}":
             pats = []
             while True:
-                if self.peek() == "_":
-                    self.eat()
+                pt = self.pattern()
+                if pt[0] in ("pwild", "pvar"):
+                    if pt[0] == "pvar":
+                        raise Unsupported("match arm binding a name")
                     pats = None
+                elif pt[0] == "plit":
+                    pats.append(pt[1])
                 else:
-                    lo = self.unary()
-                    if self.peek() == "..=":
-                        self.eat()
-                        lo = ("prange", lo, self.unary())
-                    pats.append(lo)
+                    pats.append(pt)
                 if self.peek() == "|":
                     self.eat()
                     continue
                 break
+            if self.peek() == "if":
+                raise Unsupported("match guard")
             self.eat("=>")
             if self.peek() == "{":
                 body = self.block()
             else:
-                body = [("expr", self.expr(), False)]
+                ae = self.expr()
+                if self.peek() in ASSIGN_OPS:
+                    op = self.eat()
+                    rhs = self.expr()
+                    if op != "=":
+                        rhs = ("bin", op[:-1], ae, rhs)
+                    body = [("assign", ae, rhs)]
+                else:
+                    body = [("expr", ae, False)]
             if self.peek() == ",":
                 self.eat()
             if pats is None:
@@ -337,19 +593,36 @@ class P:
             else:
                 arms.append((pats, body))
         self.eat("}")
+        # Option / Result scrutinee: `Some(x) => .., None => ..` becomes an if-let
+        if arms and any(p[0] in ("psome", "pnone") for pats, _ in arms for p in pats):
+            some = [(p, b) for p, b in arms if len(p) == 1 and p[0][0] == "psome"]
+            none = [(p, b) for p, b in arms if len(p) == 1 and p[0][0] == "pnone"]
+            if len(some) != 1 or len(some) + len(none) != len(arms) or len(none) > 1:
+                raise Unsupported("match on Option/Result with these arms")
+            other = none[0][1] if none else default
+            if other is None:
+                raise Unsupported("match on Option/Result is not exhaustive")
+            return ("iflet", some[0][0][0][1], scrut, some[0][1], other)
         if default is None:
-            raise Unsupported("match without a `_` arm")
+            # exhaustive match on a fieldless enum: the translation checks that every variant is covered
+            if not arms:
+                raise Unsupported("empty match")
+            return ("ematch", scrut, arms)
         node_else = default
         for pats, body in reversed(arms):
-            cond = None
-            for pt in pats:
-                if pt[0] == "prange":
-                    c = ("bin", "&&", ("bin", "<=", pt[1], scrut), ("bin", "<=", scrut, pt[2]))
-                else:
-                    c = ("bin", "==", scrut, pt)
-                cond = c if cond is None else ("bin", "||", cond, c)
-            node_else = [("expr", ("if", cond, body, node_else), False)]
+            node_else = [("expr", ("if", self.pat_cond(scrut, pats), body, node_else), False)]
         return node_else[0][1]
+
+    @staticmethod
+    def pat_cond(scrut, pats):
+        cond = None
+        for pt in pats:
+            if pt[0] == "prange":
+                c = ("bin", "&&", ("bin", "<=", pt[1], scrut), ("bin", "<=", scrut, pt[2]))
+            else:
+                c = ("bin", "==", scrut, pt)
+            cond = c if cond is None else ("bin", "||", cond, c)
+        return cond
 
     def primary(self):
         k, v = self.kind(), self.peek()
@@ -358,9 +631,27 @@ class P:
             for suf in sorted(INT_TYPES, key=len, reverse=True):
                 if v.endswith(suf) and not v.startswith("0x") or (v.startswith("0x") and v.endswith(suf) and suf[0] in "ui" and len(v) > len(suf) + 2 and v[-len(suf) - 1] in "0123456789abcdefABCDEF_" and suf[0] not in "abcdef"):
                     return ("lit", G.parse_int(v), INT_TYPES[suf])
+            if "." in v or (("e" in v or "E" in v) and not v.startswith("0x")) or v.endswith("f32") or v.endswith("f64"):
+                raise Unsupported("float literal %s" % v)
             return ("lit", G.parse_int(v), None)
+        if k == "char":
+            self.eat()
+            body = v[2:-1] if v.startswith("b") else v[1:-1]
+            esc = {"\\n": 10, "\\r": 13, "\\t": 9, "\\0": 0, "\\\\": 92, "\\'": 39, '\\"': 34}
+            if body in esc:
+                c = esc[body]
+            elif len(body) == 1:
+                c = ord(body)
+            elif body.startswith("\\x"):
+                c = int(body[2:], 16)
+            else:
+                raise Unsupported("char literal %s" % v)
+            return ("lit", c, ("U", 8) if v.startswith("b") else ("U", 32))
+        if k == "str":
+            raise Unsupported("string literal")
         if v == "(":
             self.eat()
+            saved, self.nostruct = self.nostruct, 0
             items = []
             trailing = False
             while self.peek() != ")":
@@ -374,12 +665,55 @@ class P:
                     self.eat()
                     trailing = True
             self.eat(")")
+            self.nostruct = saved
             if len(items) == 1 and not trailing:
                 return items[0]
             return ("tuple", items)
+        if v == "[":
+            self.eat()
+            saved, self.nostruct = self.nostruct, 0
+            items = []
+            rep = None
+            while self.peek() != "]":
+                items.append(self.expr())
+                if self.peek() == ";":
+                    self.eat()
+                    rep = self.expr()
+                    break
+                if self.peek() == ",":
+                    self.eat()
+            self.eat("]")
+            self.nostruct = saved
+            if rep is not None:
+                return ("arrayrep", items[0], rep)
+            return ("array", items)
         if v == "if":
             self.eat()
+            if self.peek() == "let":
+                self.eat()
+                pat = self.pattern()
+                self.eat("=")
+                self.nostruct += 1
+                scrut = self.expr()
+                self.nostruct -= 1
+                a = self.block()
+                b = None
+                if self.peek() == "else":
+                    self.eat()
+                    if self.peek() == "if":
+                        b = [("expr", self.primary(), False)]
+                    else:
+                        b = self.block()
+                if pat[0] == "psome":
+                    return ("iflet", pat[1], scrut, a, b)
+                if pat[0] == "pnone":
+                    return ("if", ("method", "is_none", scrut, []), a, b)
+                if pat[0] == "plit":
+                    return ("if", ("bin", "==", scrut, pat[1]), a, b)
+                raise Unsupported("if let with this pattern")
+            self.nostruct += 1
             c = self.expr()
+            self.nostruct -= 1
             a = self.block()
             b = None
             if self.peek() == "else":
@@ -394,25 +728,52 @@ class P:
         if v == "return":
             self.eat()
             return ("ret", None if self.peek() in (",", ";", "}") else self.expr())
+        if v == "break":
+            self.eat()
+            return ("brk",)
+        if v == "continue":
+            self.eat()
+            return ("cont",)
         if v == "{":
             return ("block", self.block())
+        if v == "unsafe" and self.peek(1) == "{":
+            raise Unsupported("unsafe block")
         if v in ("true", "false"):
             self.eat()
             return ("bool", v == "true")
+        if v in ("|", "||", "move"):
+            raise Unsupported("closure")
         if k == "id":
             path = [self.eat()]
+            if self.peek() == "!":
+                if self.peek(1) in ("(", "[", "{") and self.peek(1) != "=":
+                    raise Unsupported("macro %s!" % path[0])
             while self.peek() == "::":
                 self.eat()
+                if self.peek() == "<":
+                    raise Unsupported("turbofish")
                 path.append(self.eat())
             if self.peek() == "(":
-                self.eat()
-                args = []
-                while self.peek() != ")":
-                    args.append(self.expr())
+                return ("call", path, self.args())
+            if self.peek() == "{" and not self.nostruct and path[-1][0].isupper() and self.kind(1) == "id" and self.peek(2) in (":", ",", "}"):
+                self.eat("{")
+                fields = []
+                while self.peek() != "}":
+                    if self.peek() == "..":
+                        raise Unsupported("struct update syntax")
+                    fname = self.eat()
+                    if self.peek() == ":":
+                        self.eat()
+                        saved, self.nostruct = self.nostruct, 0
+                        fe = self.expr()
+                        self.nostruct = saved
+                    else:
+                        fe = ("path", [fname])
+                    fields.append((fname, fe))
                     if self.peek() == ",":
                         self.eat()
-                self.eat(")")
-                return ("call", path, args)
+                self.eat("}")
+                return ("structlit", path[-1], fields)
             return ("path", path)
         raise Unsupported("expression starting with %r" % v)
 
@@ -428,14 +789,110 @@ def wrap(t, s):
     return "(BV.Rs.wrapS %d (%s))" % (t[1], s)
 
 
+def is_int(t):
+    return t is not None and t != BOOL and t[0] in "UI"
+
+
+def walk(node, f):
+    """generic pre-order traversal of AST tuples / lists"""
+    if isinstance(node, tuple):
+        f(node)
+        for x in node:
+            walk(x, f)
+    elif isinstance(node, list):
+        for x in node:
+            walk(x, f)
+
+
+def uses_name(node, name):
+    hit = []
+
+    def f(n):
+        if n and n[0] == "path" and n[1] == [name]:
+            hit.append(1)
+    walk(node, f)
+    return bool(hit)
+
+
+def lv_root(e):
+    """root variable name of an l-value expression, or None"""
+    while True:
+        if e[0] == "path" and len(e[1]) == 1:
+            return e[1][0]
+        if e[0] in ("field", "tfield"):
+            e = e[2]
+        elif e[0] == "index":
+            e = e[1]
+        elif e[0] == "un" and e[1] in ("*", "&mut"):
+            e = e[2]
+        else:
+            return None
+
+
+class Sig:
+    """signature of a translated function: rparams = [(name, mode, type, flat)] with mode val|mut and
+    flat = list of (field, type) for a flattened struct parameter; ret; outs = [(name, type)]"""
+    def __init__(self, rparams, ret, outs, writer, has_guards, lean_name):
+        self.rparams, self.ret, self.outs, self.writer = rparams, ret, outs, writer
+        self.has_guards, self.lean_name = has_guards, lean_name
+        self.safe = False
+
+
+class Ctx:
+    def __init__(self, ret_t, plain_final, wrap, fall, brk=None, cont=None):
+        self.ret_t, self.plain_final, self.wrap, self.fall, self.brk, self.cont = ret_t, plain_final, wrap, fall, brk, cont
+
+    def final(self, env, val):
+        return self.wrap(self.plain_final(env, val))
+
+
 class Tr:
     def __init__(self, consts, fns):
         self.consts = consts   # name -> (value, type or None)
-        self.fns = fns         # name -> (param types, result type, out types, writer?)
+        self.fns = fns         # name -> Sig
         self.asserts = []
         self.sinks = set()     # names of the (&mut usize, &mut [u8]) bit-sink parameters
         self.cur_file = None
         self.foreign = set()   # callees whose translation comes from another file than the caller
+        self.structs_v = {}    # struct name -> [(field, type)]
+        self.enums = {}        # enum name -> {variant: discriminant}
+        self.tables = {}       # table name -> (lean reference, type)
+        self.okmode = False
+        self.guards = []
+        self.nguards = 0
+        self.fuel = "18446744073709551616"
+        self.protected = []    # stack of variable sets carried by enclosing merged ifs / loops
+        self.tmp = 0
+        self.self_ty = None
+        self.uses_source = False
+        self.deflit = set()    # variables whose type is the default of an unsuffixed literal
+        self.lit_override = {}
+
+    def fresh(self, base):
+        self.tmp += 1
+        return "%s_%d" % (base, self.tmp)
+
+    def guard(self, g):
+        self.guards.append(g)
+
+    def scoped(self, f):
+        saved, self.guards = self.guards, []
+        try:
+            r = f()
+            g = self.guards
+        finally:
+            self.guards = saved
+        return r, g
+
+    def flush(self, env):
+        """`let ok_ := ok_ && g1 && ..` for the guards collected since the last flush (ok-mode only)"""
+        g, self.guards = self.guards, []
+        if not g:
+            return ""
+        self.nguards += len(g)
+        if not self.okmode:
+            return ""
+        return "let ok_ : Bool := (ok_ && %s)\n" % " && ".join(g)
 
     def note_callee(self, name):
         f = FN_FILES.get(name)
@@ -446,15 +903,111 @@ class Tr:
                 return      # imported, not shadowed by a file-local definition
             self.foreign.add("%s (from %s)" % (name, f))
 
+    # ---- struct / tuple helpers
+    def struct_of(self, t):
+        name = t[1]
+        if name == "Self":
+            name = self.self_ty
+        if name not in self.structs_v:
+            raise Unsupported("struct %s is not listed under structs_v" % name)
+        return name, self.structs_v[name]
+
+    def field_ty(self, t, f):
+        name, fields = self.struct_of(t)
+        for fn_, ft in fields:
+            if fn_ == f:
+                return ft
+        raise Unsupported("field %s.%s is not a supported field of the generated structure" % (name, f))
+
+    @staticmethod
+    def proj(s, k, n):
+        """k-th component of an n-tuple term"""
+        if n == 1:
+            return s
+        out = s
+        for _ in range(k):
+            out = "%s.2" % out
+        if k < n - 1:
+            out = "%s.1" % out
+        return out
+
+    # ---- l-values: (root name, [accessor], type); accessor = ("f", field) | ("i", lean index, elem type) | ("t", k, n)
+    def lvalue(self, e, env):
+        if e[0] == "path" and len(e[1]) == 1:
+            name = e[1][0]
+            if name not in env:
+                raise Unsupported("unknown name %s" % name)
+            ent = env[name]
+            if len(ent) == 3:      # alias
+                return ent[2][0], list(ent[2][1]), ent[1]
+            return name, [], ent[1]
+        if e[0] == "un" and e[1] in ("*", "&mut"):
+            return self.lvalue(e[2], env)
+        if e[0] == "field":
+            root, accs, t = self.lvalue(e[2], env)
+            if t is not None and t[0] == "STF":
+                raise Unsupported("assignment to a field of a flattened struct parameter")
+            if t is None or t[0] != "ST":
+                raise Unsupported("field of a non-struct")
+            return root, accs + [("f", e[1])], self.field_ty(t, e[1])
+        if e[0] == "tfield":
+            root, accs, t = self.lvalue(e[2], env)
+            if t is None or t[0] != "T":
+                raise Unsupported("tuple field of a non-tuple")
+            return root, accs + [("t", e[1], len(t[1]))], t[1][e[1]]
+        if e[0] == "index":
+            root, accs, t = self.lvalue(e[1], env)
+            if t is None or t[0] != "S":
+                raise Unsupported("index into %r" % (t,))
+            if e[2][0] == "range":
+                raise Unsupported("slice range as an assignment target")
+            i, ti = self.ex(e[2], env, ("U", 64))
+            if ti != ("U", 64):
+                raise Unsupported("index of type %r" % (ti,))
+            return root, accs + [("i", i, t[1])], t[1]
+        raise Unsupported("assignment target")
+
+    def read_lv(self, env, root, accs, guard=True):
+        s = env[root][0]
+        t = env[root][1]
+        for a in accs:
+            if a[0] == "f":
+                s = "%s.%s" % (s, a[1])
+            elif a[0] == "t":
+                s = self.proj(s, a[1], a[2])
+            else:
+                if guard:
+                    self.guard("decide (%s < List.length %s)" % (a[1], s))
+                s = "(List.getD %s %s %s)" % (s, a[1], default_of(a[2]))
+        return s
+
+    def write_lv(self, env, root, accs, val):
+        def upd(cur, accs):
+            if not accs:
+                return val
+            a = accs[0]
+            if a[0] == "f":
+                return "{ %s with %s := %s }" % (cur, a[1], upd("%s.%s" % (cur, a[1]), accs[1:]))
+            if a[0] == "t":
+                n = a[2]
+                parts = [self.proj(cur, k, n) for k in range(n)]
+                parts[a[1]] = upd(parts[a[1]], accs[1:])
+                return "(" + ", ".join(parts) + ")"
+            self.guard("decide (%s < List.length %s)" % (a[1], cur))
+            if len(accs) == 1:
+                return "(List.set %s %s %s)" % (cur, a[1], val)
+            return "(List.set %s %s %s)" % (cur, a[1], upd("(List.getD %s %s %s)" % (cur, a[1], default_of(a[2])), accs[1:]))
+        return upd(env[root][0], accs)
+
     # returns (lean string, type); `want` is the expected type or None
     def ex(self, e, env, want=None):
         k = e[0]
         if k == "lit":
             t = e[2] or want
-            if t is None:
+            if t is None or not is_int(t):
+                if t is not None and t[0] == "E":
+                    raise Unsupported("integer literal where an enum is expected")
                 t = ("I", 32)
-            if t == BOOL or t[0] not in "UI":
-                raise Unsupported("literal of type %r" % (t,))
             v = e[1]
             if t[0] == "U":
                 return "%d" % (v % 2 ** t[1]), t
@@ -464,11 +1017,28 @@ class Tr:
         if k == "path":
             name = e[1][-1]
             if len(e[1]) == 1 and name in env:
-                return env[name][0], env[name][1]
+                ent = env[name]
+                if len(ent) == 3:
+                    return self.read_lv(env, ent[2][0], ent[2][1]), ent[1]
+                if ent[1] is None or ent[1][0] == "?":
+                    raise Unsupported("use of %s before it is assigned" % name)
+                return ent[0], ent[1]
+            if len(e[1]) == 1 and name == "None":
+                if want and want[0] == "O":
+                    return "none", want
+                raise Unsupported("None without a known type")
+            if len(e[1]) >= 2 and e[1][-2] in self.enums and name in self.enums[e[1][-2]]:
+                return "%d" % self.enums[e[1][-2]][name], ("E", e[1][-2])
+            if len(e[1]) == 2 and e[1][0] in INT_TYPES and name in ("MAX", "MIN"):
+                t = INT_TYPES[e[1][0]]
+                v = (2 ** t[1] - 1 if name == "MAX" else 0) if t[0] == "U" else (2 ** (t[1] - 1) - 1 if name == "MAX" else -2 ** (t[1] - 1))
+                return ("%d" % v if t[0] == "U" else "(%d : Int)" % v), t
             if name in self.consts:
                 v, t = self.consts[name]
                 t = t or want or ("U", 64)
                 return ("%d" % v if t[0] == "U" else "(%d : Int)" % v), t
+            if name in self.tables:
+                return self.tables[name]
             raise Unsupported("unknown name %s" % "::".join(e[1]))
         if k == "un":
             if e[1] in ("*", "&mut"):
@@ -481,6 +1051,7 @@ class Tr:
                     return "(%s - 1 - %s)" % (pow2(t[1]), s), t
                 return "(-1 - %s)" % s, t
             if t[0] == "I":
+                self.guard("(%s != (%d : Int))" % (s, -2 ** (t[1] - 1)))
                 return wrap(t, "-%s" % s), t
             raise Unsupported("negation of unsigned")
         if k == "cast":
@@ -498,49 +1069,199 @@ class Tr:
                 ta = ta[2]
             if ta[0] != "S":
                 raise Unsupported("index into %r" % (ta,))
+            if e[2][0] == "range":
+                lo, hi = self.range_bounds(e[2], env, "(List.length %s)" % a)
+                self.guard("decide (%s ≤ %s) && decide (%s ≤ List.length %s)" % (lo, hi, hi, a))
+                return "(BV.Rs.slice %s %s %s)" % (a, lo, hi), ta
             i, ti = self.ex(e[2], env, ("U", 64))
-            d = "0" if ta[1][0] == "U" else "(0 : Int)"
-            return "(List.getD %s %s %s)" % (a, i, d), ta[1]
+            if ti != ("U", 64):
+                raise Unsupported("index of type %r (usize expected)" % (ti,))
+            self.guard("decide (%s < List.length %s)" % (i, a))
+            return "(List.getD %s %s %s)" % (a, i, default_of(ta[1])), ta[1]
         if k == "field":
             base = e[2]
-            if base[0] == "path" and len(base[1]) == 1 and base[1][0] in env and env[base[1][0]][1][0] == "ST":
+            if base[0] == "path" and len(base[1]) == 1 and base[1][0] in env and len(env[base[1][0]]) == 2 \
+                    and env[base[1][0]][1] is not None and env[base[1][0]][1][0] == "STF":
                 key = base[1][0] + "_" + e[1]
                 if key in env:
                     return env[key][0], env[key][1]
                 raise Unsupported("field %s.%s is not a scalar field of the struct (or the struct was not found)" % (base[1][0], e[1]))
-            raise Unsupported("field access on a non-parameter")
+            b, tb = self.ex(base, env)
+            if tb[0] == "ST":
+                return "%s.%s" % (b, e[1]), self.field_ty(tb, e[1])
+            if tb[0] == "TS":
+                names = [f for f, _ in tb[2]]
+                if e[1] not in names:
+                    raise Unsupported("field %s of table element %s" % (e[1], tb[1]))
+                j = names.index(e[1])
+                return self.proj(b, j, len(names)), tb[2][j][1]
+            raise Unsupported("field access on %r" % (tb,))
+        if k == "tfield":
+            b, tb = self.ex(e[2], env)
+            if tb[0] != "T" or e[1] >= len(tb[1]):
+                raise Unsupported("tuple field of %r" % (tb,))
+            return self.proj(b, e[1], len(tb[1])), tb[1][e[1]]
         if k == "tuple":
-            parts = [self.ex(x, env, (want[1][j] if want and want[0] == "T" else None)) for j, x in enumerate(e[1])]
+            parts = [self.ex(x, env, (want[1][j] if want and want[0] == "T" and j < len(want[1]) else None)) for j, x in enumerate(e[1])]
             return "(" + ", ".join(p[0] for p in parts) + ")", ("T", [p[1] for p in parts])
+        if k == "range":
+            if e[1] is None or e[2] is None or e[3]:
+                raise Unsupported("range expression as a value")
+            return self.ex(("tuple", [e[1], e[2]]), env, want)
+        if k == "array":
+            et = want[1] if want and want[0] == "S" else None
+            parts = []
+            for x in e[1]:
+                s, t = self.ex(x, env, et)
+                et = et or t
+                parts.append((s, t))
+            if any(t != et for _, t in parts):
+                # an unsuffixed literal typed before the element type was known
+                parts = [self.ex(x, env, et) for x in e[1]]
+                if any(t != et for _, t in parts):
+                    raise Unsupported("array literal with elements of different types")
+            if et is None:
+                raise Unsupported("empty array literal of unknown type")
+            return "[" + ", ".join(p[0] for p in parts) + "]", ("S", et)
+        if k == "arrayrep":
+            et = want[1] if want and want[0] == "S" else None
+            s, t = self.ex(e[1], env, et)
+            n, tn = self.ex(e[2], env, ("U", 64))
+            return "(List.replicate %s %s)" % (n, s), ("S", t)
+        if k == "structlit":
+            sname = self.self_ty if e[1] == "Self" else e[1]
+            if sname not in self.structs_v:
+                raise Unsupported("struct literal of %s (not listed under structs_v)" % sname)
+            fields = dict(self.structs_v[sname])
+            given = dict(e[2])
+            parts = []
+            for fn_, ft in self.structs_v[sname]:
+                if fn_ not in given:
+                    raise Unsupported("struct literal of %s without field %s" % (sname, fn_))
+                s, t = self.ex(given[fn_], env, ft)
+                if t != ft:
+                    self.retry_for(given[fn_], t, ft)
+                    raise Unsupported("field %s of %s: %r vs %r" % (fn_, sname, t, ft))
+                parts.append("%s := %s" % (fn_, s))
+            for fn_ in given:
+                if fn_ not in fields:
+                    raise Unsupported("field %s of %s is outside the generated structure" % (fn_, sname))
+            return "({ %s } : %s)" % (", ".join(parts), sname), ("ST", sname)
         if k == "if":
             c, tc = self.ex(e[1], env, BOOL)
             if e[3] is None:
                 raise Unsupported("if expression without else")
-            a, ta = self.block_value(e[2], env, want)
-            b, tb = self.block_value(e[3], env, want or ta)
+            (a, ta), ga = self.scoped(lambda: self.block_value(e[2], env, want))
+            (b, tb), gb = self.scoped(lambda: self.block_value(e[3], env, want or ta))
             if want is None and ta != tb:
                 # one branch was an unsuffixed literal typed by default: retype with the other
-                a, ta = self.block_value(e[2], env, tb)
+                (a, ta), ga = self.scoped(lambda: self.block_value(e[2], env, tb))
+            if ta != tb:
+                raise Unsupported("if branches of types %r and %r" % (ta, tb))
+            if ga:
+                self.guard("(!%s || (%s))" % (c, " && ".join(ga)))
+            if gb:
+                self.guard("(%s || (%s))" % (c, " && ".join(gb)))
             return "(if %s then %s else %s)" % (c, a, b), ta
+        if k == "iflet":
+            o, to = self.ex(e[2], env)
+            if to[0] != "O":
+                raise Unsupported("if let Some/Ok on %r" % (to,))
+            if e[4] is None:
+                raise Unsupported("if let expression without else")
+            env2 = dict(env)
+            binds = self.bind_pattern(e[1], "(Option.getD %s %s)" % (o, default_of(to[1])), to[1], env2)
+            (a, ta), ga = self.scoped(lambda: self.block_value(e[3], env2, want))
+            (b, tb), gb = self.scoped(lambda: self.block_value(e[4], env, want or ta))
+            if ta != tb:
+                raise Unsupported("if let branches of types %r and %r" % (ta, tb))
+            if ga:
+                self.guard("(!(Option.isSome %s) || (%s%s))" % (o, binds, " && ".join(ga)))
+            if gb:
+                self.guard("((Option.isSome %s) || (%s))" % (o, " && ".join(gb)))
+            return "(if (Option.isSome %s) then (%s%s) else %s)" % (o, binds, a, b), ta
+        if k == "ematch":
+            return self.ex(self.ematch_to_if(e, env), env, want)
         if k == "block":
             return self.block_value(e[1], env, want)
         raise Unsupported("expression kind %s" % k)
+
+    def ematch_to_if(self, e, env):
+        """exhaustive `match` on a fieldless enum (no `_` arm): every variant must be covered"""
+        _, ts = self.ex(e[1], env)
+        if ts[0] != "E":
+            raise Unsupported("match without a `_` arm on %r" % (ts,))
+        covered = set()
+        for pats, _ in e[2]:
+            for pt in pats:
+                if pt[0] != "path" or pt[1][-1] not in self.enums[ts[1]]:
+                    raise Unsupported("match arm pattern on enum %s" % ts[1])
+                covered.add(pt[1][-1])
+        if covered != set(self.enums[ts[1]]):
+            raise Unsupported("match on enum %s does not cover %s" % (ts[1], sorted(set(self.enums[ts[1]]) - covered)))
+        node_else = e[2][-1][1]
+        for pats, body in reversed(e[2][:-1]):
+            node_else = [("expr", ("if", P.pat_cond(e[1], pats), body, node_else), False)]
+        return node_else[0][1] if e[2][:-1] else ("block", node_else)
+
+    def bind_pattern(self, pat, s, t, env):
+        """lets (as one string, each ending in `; `) binding the names of `pat` to the value `s : t`"""
+        if pat[0] == "pwild":
+            return ""
+        if pat[0] == "pvar":
+            env[pat[1]] = (pat[1], t)
+            return "let %s : %s := %s; " % (pat[1], lean_ty(t), s)
+        if pat[0] == "ptuple":
+            if t[0] != "T" or len(t[1]) != len(pat[1]):
+                raise Unsupported("tuple pattern against %r" % (t,))
+            out = ""
+            for j, p in enumerate(pat[1]):
+                out += self.bind_pattern(p, self.proj(s, j, len(pat[1])), t[1][j], env)
+            return out
+        raise Unsupported("pattern %s" % pat[0])
+
+    def range_bounds(self, r, env, length):
+        lo = "0"
+        if r[1] is not None:
+            lo, tl = self.ex(r[1], env, ("U", 64))
+            if tl != ("U", 64):
+                raise Unsupported("range bound of type %r" % (tl,))
+        if r[2] is None:
+            hi = length
+        else:
+            hi, th = self.ex(r[2], env, ("U", 64))
+            if th != ("U", 64):
+                raise Unsupported("range bound of type %r" % (th,))
+            if r[3]:
+                hi = "(%s + 1)" % hi
+        return lo, hi
 
     def block_value(self, stmts, env, want):
         """a block used as a value: lets followed by a tail expression (no assignment to outer names, no return)"""
         env = dict(env)
         out = []
+
+        def wrapg(gs):
+            for g in gs:
+                self.guard(("(" + " ".join(out) + " " + g + ")") if out else g)
         for j, st in enumerate(stmts):
             if st[0] == "let":
-                s, t = self.ex(st[3], env, st[2])
+                (s, t), gs = self.scoped(lambda: self.ex(st[3], env, st[2]))
+                wrapg(gs)
                 if st[2] and st[2] != t:
                     raise Unsupported("let type mismatch %s" % st[1])
                 out.append("let %s : %s := %s;" % (st[1], lean_ty(t), s))
                 env[st[1]] = (st[1], t)
             elif st[0] == "assert":
                 self.asserts.append(st[1])
+                if st[2] is None:
+                    self.guard("false /- unparsed assert -/")
+                else:
+                    (s, t), gs = self.scoped(lambda: self.ex(st[2], env, BOOL))
+                    wrapg(gs + [s])
             elif st[0] == "expr" and not st[2] and j == len(stmts) - 1:
-                s, t = self.ex(st[1], env, want)
+                (s, t), gs = self.scoped(lambda: self.ex(st[1], env, want))
+                wrapg(gs)
                 return "(" + " ".join(out) + " " + s + ")", t
             else:
                 raise Unsupported("statement %s inside a value block" % st[0])
@@ -551,6 +1272,8 @@ class Tr:
             return s
         if t == BOOL:
             return "(if %s then %s else %s)" % (s, "1" if to[0] == "U" else "(1 : Int)", "0" if to[0] == "U" else "(0 : Int)")
+        if t[0] == "E" and is_int(to):
+            t = ("U", 64)
         if to == BOOL or to[0] not in "UI" or t[0] not in "UI":
             raise Unsupported("cast %r -> %r" % (t, to))
         if t[0] == "U" and to[0] == "U":
@@ -561,23 +1284,41 @@ class Tr:
             return ("((%s : Nat) : Int)" % s) if to[1] > t[1] else "(BV.Rs.wrapS %d ((%s : Nat) : Int))" % (to[1], s)
         return s if to[1] >= t[1] else "(BV.Rs.wrapS %d %s)" % (to[1], s)
 
-    def arith(self, op, a, b, t, tb=None):
+    def in_range(self, t, s):
+        if t[0] == "U":
+            return "decide (%s < %s)" % (s, pow2(t[1]))
+        return "decide ((%d : Int) ≤ %s) && decide (%s < (%d : Int))" % (-2 ** (t[1] - 1), s, s, 2 ** (t[1] - 1))
+
+    def arith(self, op, a, b, t, tb=None, checked=False):
         if op in ("+", "*"):
+            if checked:
+                self.guard(self.in_range(t, "%s %s %s" % (a, op, b)))
             return wrap(t, "%s %s %s" % (a, op, b))
         if op == "-":
             if t[0] == "U":
+                if checked:
+                    self.guard("decide (%s ≤ %s)" % (b, a))
                 return "((%s + %s - %s) %% %s)" % (a, pow2(t[1]), b, pow2(t[1]))
+            if checked:
+                self.guard(self.in_range(t, "%s - %s" % (a, b)))
             return wrap(t, "%s - %s" % (a, b))
         if op in ("/", "%"):
+            self.guard("(%s != %s)" % (b, "0" if t[0] == "U" else "(0 : Int)"))
             if t[0] == "U":
                 return "(%s %s %s)" % (a, op, b)
+            if checked:
+                self.guard("!(%s == (%d : Int) && %s == (-1 : Int))" % (a, -2 ** (t[1] - 1), b))
             return wrap(t, "Int.%s %s %s" % ("tdiv" if op == "/" else "tmod", a, b))
         if op in ("<<", ">>"):
             # shift amount: masked with width-1; may have any integer type
             if tb[0] == "I":
                 amt = "(BV.Rs.toU 64 %s %% %d)" % (b, t[1])
+                if checked:
+                    self.guard("decide ((0 : Int) ≤ %s) && decide (%s < (%d : Int))" % (b, b, t[1]))
             else:
                 amt = "(%s %% %d)" % (b, t[1])
+                if checked:
+                    self.guard("decide (%s < %d)" % (b, t[1]))
             if t[0] == "U":
                 return ("((%s <<< %s) %% %s)" % (a, amt, pow2(t[1]))) if op == "<<" else "(%s >>> %s)" % (a, amt)
             return ("(BV.Rs.wrapS %d (%s * (2 : Int) ^ %s))" % (t[1], a, amt)) if op == "<<" else "(%s / (2 : Int) ^ %s)" % (a, amt)
@@ -594,17 +1335,20 @@ class Tr:
         op, l, r = e[1], e[2], e[3]
         if op in ("&&", "||"):
             a, _ = self.ex(l, env, BOOL)
-            b, _ = self.ex(r, env, BOOL)
+            (b, _), gb = self.scoped(lambda: self.ex(r, env, BOOL))
+            if gb:
+                self.guard(("(!%s || (%s))" if op == "&&" else "(%s || (%s))") % (a, " && ".join(gb)))
             return "(%s %s %s)" % (a, op, b), BOOL
         if op in ("<<", ">>"):
             a, ta = self.ex(l, env, want)
             b, tb = self.ex(r, env, None if not (r[0] == "lit" and r[2] is None) else ("U", 32))
-            return self.arith(op, a, b, ta, tb), ta
+            if not is_int(ta) or not is_int(tb):
+                raise Unsupported("shift of %r by %r" % (ta, tb))
+            return self.arith(op, a, b, ta, tb, True), ta
         cmp_ = op in ("==", "!=", "<", ">", "<=", ">=")
         hint = None if cmp_ else want
         # type the side that knows its type first
-        def untyped(x):
-            return x[0] == "lit" and x[2] is None
+        untyped = self.untyped
         if untyped(l) and not untyped(r):
             b, tb = self.ex(r, env, hint)
             a, ta = self.ex(l, env, tb)
@@ -612,13 +1356,30 @@ class Tr:
             a, ta = self.ex(l, env, hint)
             b, tb = self.ex(r, env, ta)
         if ta != tb:
+            for x, tx in ((l, tb), (r, ta)):
+                if x[0] == "path" and len(x[1]) == 1 and x[1][0] in self.deflit and is_int(tx):
+                    raise Retry(x[1][0], tx)
             raise Unsupported("operands of %s have types %r and %r" % (op, ta, tb))
         if cmp_:
             lop = {"==": "==", "!=": "!=", "<": "<", ">": ">", "<=": "≤", ">=": "≥"}[op]
             if op in ("==", "!="):
                 return "(%s %s %s)" % (a, lop, b), BOOL
+            if not is_int(ta) and ta[0] != "E":
+                raise Unsupported("ordering of %r" % (ta,))
             return "(decide (%s %s %s))" % (a, lop, b), BOOL
-        return self.arith(op, a, b, ta), ta
+        if not is_int(ta) and not (ta == BOOL and op in ("&", "|", "^")):
+            raise Unsupported("operator %s on %r" % (op, ta))
+        return self.arith(op, a, b, ta, None, True), ta
+
+    @staticmethod
+    def untyped(x):
+        if x[0] == "lit" and x[2] is None:
+            return True
+        if x[0] == "path" and x[1] == ["None"]:
+            return True
+        if x[0] == "bin" and x[1] in ("<<", ">>"):
+            return Tr.untyped(x[2])
+        return x[0] == "bin" and x[1] not in ("&&", "||", "==", "!=", "<", ">", "<=", ">=") and Tr.untyped(x[2]) and Tr.untyped(x[3])
 
     def method(self, e, env, want):
         m, recv, args = e[1], e[2], e[3]
@@ -629,7 +1390,10 @@ class Tr:
             if not (tl == tx == th):
                 raise Unsupported("range bounds and element have different types")
             return "((decide (%s ≤ %s)) && (decide (%s ≤ %s)))" % (lo, x, x, hi), BOOL
-        a, ta = self.ex(recv, env, want)
+        if m in self.fns and self.fns[m].rparams and self.fns[m].rparams[0][0] == "self" and not (
+                m in ("min", "max", "len")):
+            return self.call_fn(m, [recv] + list(args), env, want)
+        a, ta = self.ex(recv, env, want if m not in ("len", "is_some", "is_none", "unwrap", "unwrap_or", "is_ok", "is_err") else None)
         W = {"wrapping_add": "+", "wrapping_sub": "-", "wrapping_mul": "*", "wrapping_div": "/", "wrapping_rem": "%",
              "wrapping_shl": "<<", "wrapping_shr": ">>"}
         if m in W:
@@ -652,12 +1416,29 @@ class Tr:
         if m in ("saturating_sub",) and ta[0] == "U":
             b, tb = self.ex(args[0], env, ta)
             return "(%s - %s)" % (a, b), ta
+        if m == "len" and ta[0] == "S" and not args:
+            return "(List.length %s)" % a, ("U", 64)
+        if m in ("clone", "to_owned") and not args:
+            return a, ta
+        if ta[0] == "O":
+            if m in ("is_some", "is_ok") and not args:
+                return "(Option.isSome %s)" % a, BOOL
+            if m in ("is_none", "is_err") and not args:
+                return "(!(Option.isSome %s))" % a, BOOL
+            if m == "unwrap" and not args:
+                self.guard("(Option.isSome %s)" % a)
+                return "(Option.getD %s %s)" % (a, default_of(ta[1])), ta[1]
+            if m == "unwrap_or" and len(args) == 1:
+                d, td = self.ex(args[0], env, ta[1])
+                if td != ta[1]:
+                    raise Unsupported("unwrap_or default type")
+                return "(Option.getD %s %s)" % (a, d), ta[1]
         raise Unsupported("method %s on %r" % (m, ta))
 
     def call(self, e, env, want):
         path, args = e[1], e[2]
         name = path[-1]
-        if name in ("min", "max") and len(args) == 2:
+        if name in ("min", "max") and len(args) == 2 and name not in self.fns:
             a, ta = self.ex(args[0], env, want)
             b, tb = self.ex(args[1], env, ta)
             if ta != tb:
@@ -674,147 +1455,825 @@ class Tr:
         if name == "from" and len(path) == 2 and path[0] in INT_TYPES and len(args) == 1:
             s, t = self.ex(args[0], env)
             return self.cast(s, t, INT_TYPES[path[0]]), INT_TYPES[path[0]]
+        if len(path) >= 2:
+            q = "%s::%s" % (self.self_ty if path[-2] == "Self" else path[-2], name)
+            if q in self.fns:
+                return self.call_fn(q, args, env, want)
         if name in self.fns:
-            self.note_callee(name)
-            pts, rt, outs, writer = self.fns[name]
-            if outs or writer:
-                raise Unsupported("call of %s (out-parameters / bit writer) inside an expression" % name)
-            ss = []
-            for a, pt in zip(args, pts):
-                s, t = self.ex(a, env, pt)
-                if t != pt:
-                    raise Unsupported("argument of %s: %r vs %r" % (name, t, pt))
-                ss.append(s)
-            return "(%s %s)" % (name, " ".join(ss)), rt
+            return self.call_fn(name, args, env, want)
         raise Unsupported("call of %s" % "::".join(path))
 
-    # ---- statement sequences -> one Lean expression; `result(env, value)` builds the returned term
-    def seq(self, stmts, env, rest, ret_t, result):
-        """stmts ++ rest (rest: list of statement lists still to run, innermost first)"""
+    def call_args(self, name, sig, args, env):
+        """Lean argument strings for a call of a translated function; returns (strings, [names of &mut roots])"""
+        ss, outs = [], []
+        if len(args) != len(sig.rparams):
+            raise Unsupported("call of %s: arity" % name)
+        for a, (pn, mode, pt, flat) in zip(args, sig.rparams):
+            if flat is not None:
+                b, tb = self.ex(a, env)
+                if tb[0] == "ST" and tb[1] in self.structs_v or tb[0] == "ST" and tb[1] == "Self":
+                    for fn_, ft in flat:
+                        if self.field_ty(tb, fn_) != ft:
+                            raise Unsupported("call of %s: field %s type" % (name, fn_))
+                        ss.append("%s.%s" % (b, fn_))
+                elif tb[0] == "STF":
+                    for fn_, ft in flat:
+                        key = b + "_" + fn_
+                        if key not in env:
+                            raise Unsupported("call of %s: field %s of %s is not available in the caller" % (name, fn_, b))
+                        ss.append(env[key][0])
+                else:
+                    raise Unsupported("call of %s: struct argument %r" % (name, tb))
+                continue
+            if mode == "mut":
+                root, accs, t = self.lvalue(a, env)
+                if len(env[root]) != 2:
+                    raise Unsupported("call of %s: &mut argument through an alias" % name)
+                outs.append((root, accs))
+                if accs:
+                    sv = self.read_lv(env, root, accs)
+                    if t != pt:
+                        raise Unsupported("argument of %s: %r vs %r" % (name, t, pt))
+                    ss.append(sv)
+                    continue
+                a = ("path", [root])
+            sv, t = self.ex(a, env, pt)
+            if t != pt and not (t[0] == "ST" and pt[0] == "ST" and self.struct_of(t)[0] == self.struct_of(pt)[0]):
+                raise Unsupported("argument of %s: %r vs %r" % (name, t, pt))
+            ss.append(sv)
+        return ss, outs
+
+    def call_fn(self, name, args, env, want):
+        """a call in expression position: the callee has no out-parameters and is not a writer"""
+        self.note_callee(name)
+        sig = self.fns[name]
+        if sig.outs or sig.writer:
+            raise Unsupported("call of %s (out-parameters / bit writer) inside an expression" % name)
+        ss, _ = self.call_args(name, sig, args, env)
+        if sig.has_guards:
+            if not sig.safe and self.okmode:
+                raise Unsupported("`_ok` needs %s_ok: mark %s \"safe\"" % (sig.lean_name, name))
+            self.guard("(%s_ok %s)" % (sig.lean_name, " ".join(ss)) if ss else "%s_ok" % sig.lean_name)
+        return ("(%s %s)" % (sig.lean_name, " ".join(ss)) if ss else sig.lean_name), sig.ret
+
+    # ---- analysis of statement lists
+    def assigned(self, node, env):
+        """names of `env` that the statements may assign (over-approximation), in env order"""
+        hit = set()
+        alias = {}
+
+        def root_of(x):
+            r = lv_root(x)
+            while r in alias:
+                r = alias[r]
+            if r is not None and r in env and len(env[r]) == 3:
+                r = env[r][2][0]
+            return r
+
+        def f(n):
+            k = n[0] if n else None
+            if k == "assign":
+                hit.add(root_of(n[1]))
+            elif k == "let" and isinstance(n[3], tuple) and n[3][0] == "un" and n[3][1] == "&mut":
+                alias[n[1]] = lv_root(n[3])
+            elif k == "let" and isinstance(n[3], tuple) and n[3][0] == "path" and len(n[3][1]) == 1 and n[3][1][0] in env \
+                    and len(env[n[3][1][0]]) == 3:
+                alias[n[1]] = n[3][1][0]
+            elif k == "call":
+                name = n[1][-1]
+                if name in ("BrotliWriteBits", "JumpToByteBoundary") and "w_" in env:
+                    hit.add("w_")
+                if name == "replace" and n[2]:
+                    hit.add(root_of(n[2][0]))
+                sig = self.fns.get(name)
+                if sig is not None:
+                    if sig.writer:
+                        hit.add("w_")
+                    plain = [a for a in n[2] if not self.is_sink(a)]
+                    for a, rp in zip(plain, sig.rparams):
+                        if rp[1] == "mut":
+                            hit.add(root_of(a))
+                for a in n[2]:
+                    if isinstance(a, tuple) and a[0] == "un" and a[1] == "&mut":
+                        hit.add(root_of(a))
+            elif k == "method":
+                sig = self.fns.get(n[1])
+                if sig is not None and sig.rparams and sig.rparams[0][0] == "self":
+                    if sig.rparams[0][1] == "mut":
+                        hit.add(root_of(n[2]))
+                    if sig.writer:
+                        hit.add("w_")
+                    for a, rp in zip(n[3], sig.rparams[1:]):
+                        if rp[1] == "mut":
+                            hit.add(root_of(a))
+                if n[1] in ("take", "clone_from_slice", "copy_from_slice", "push", "swap"):
+                    hit.add(root_of(n[2]))
+        walk(node, f)
+        out = [v for v in env if v in hit and len(env[v]) == 2]
+        if self.okmode and "ok_" not in out:
+            out.append("ok_")
+        return out
+
+    def is_sink(self, a):
+        a = a[2] if a[0] == "un" else a
+        return a[0] == "path" and len(a[1]) == 1 and a[1][0] in self.sinks
+
+    @staticmethod
+    def escapes(node, loop_level=True):
+        """(has return, has break/continue belonging to the enclosing loop)"""
+        ret = [False]
+        brk = [False]
+        Tr.last_has_break = False
+
+        def visit(n, inloop):
+            if isinstance(n, list):
+                for x in n:
+                    visit(x, inloop)
+                return
+            if not isinstance(n, tuple) or not n:
+                return
+            k = n[0]
+            if k in ("return", "ret"):
+                ret[0] = True
+            if k in ("break", "continue", "brk", "cont") and not inloop:
+                brk[0] = True
+                if k in ("break", "brk"):
+                    Tr.last_has_break = True
+            for x in n[1:]:
+                visit(x, inloop or k in ("while", "for"))
+        visit(node, False)
+        return ret[0], brk[0]
+
+    def tuple_of(self, env, vars_):
+        if not vars_:
+            return "()", "Unit"
+        if len(vars_) == 1:
+            return env[vars_[0]][0], lean_ty(env[vars_[0]][1])
+        return "(" + ", ".join(env[v][0] for v in vars_) + ")", " × ".join(lean_ty(env[v][1], True) for v in vars_)
+
+    def pat_of(self, env, vars_):
+        if not vars_:
+            return "_u"
+        if len(vars_) == 1:
+            return env[vars_[0]][0]
+        return "(" + ", ".join(env[v][0] for v in vars_) + ")"
+
+    # ---- statement sequences -> one Lean expression
+    def seq(self, stmts, env, rest, ctx):
+        """stmts ++ rest (rest: list of frames (statement list, env to restore or None), innermost first)"""
         if not stmts:
             if rest:
-                return self.seq(rest[0], env, rest[1:], ret_t, result)
-            return result(env, None)
+                (nstmts, outer), rest2 = rest[0], rest[1:]
+                if outer is not None:
+                    new = dict(outer)
+                    for n_, ent in outer.items():
+                        # a variable declared without a value outside and first assigned inside the block
+                        if len(ent) == 2 and (ent[1] is None or ent[1][0] == "?") and n_ in env and env[n_][0] == ent[0]:
+                            new[n_] = env[n_]
+                    env = new
+                return self.seq(nstmts, env, rest2, ctx)
+            return ctx.fall(env)
         st, tail = stmts[0], stmts[1:]
         k = st[0]
         if k == "assert":
             self.asserts.append(st[1])
-            return self.seq(tail, env, rest, ret_t, result)
-        if k == "let":
-            s, t = self.ex(st[3], env, st[2])
-            if st[2] and st[2] != t:
-                raise Unsupported("let %s: annotated %r, value %r" % (st[1], st[2], t))
+            if st[2] is None:
+                self.guard("false /- unparsed assert -/")
+            else:
+                try:
+                    s, _ = self.ex(st[2], env, BOOL)
+                    self.guard(s)
+                except Unsupported:
+                    self.guard("false /- untranslated assert -/")
+            pre = self.flush(env)
+            return pre + self.seq(tail, env, rest, ctx)
+        if k == "letu":
             env2 = dict(env)
-            env2[st[1]] = (st[1], t)
-            return "let %s : %s := %s\n%s" % (st[1], lean_ty(t), s, self.seq(tail, env2, rest, ret_t, result))
+            env2[st[1]] = (self.decl_name(st[1], env), ("?", st[2]) if st[2] else None)
+            return self.seq(tail, env2, rest, ctx)
+        if k in ("let", "letp"):
+            return self.let_stmt(st, tail, env, rest, ctx)
         if k == "assign":
-            lhs = st[1]
-            if lhs[0] == "un" and lhs[1] == "*":
-                lhs = lhs[2]
-            if lhs[0] != "path" or len(lhs[1]) != 1 or lhs[1][0] not in env:
-                raise Unsupported("assignment target")
-            name = lhs[1][0]
-            t = env[name][1]
-            rhs = st[2]
-            if rhs[0] == "bin" and rhs[2] is st[1]:
-                rhs = ("bin", rhs[1], lhs, rhs[3])
-            s, t2 = self.ex(rhs, env, t)
-            if t2 != t:
-                raise Unsupported("assignment to %s: %r vs %r" % (name, t, t2))
-            env2 = dict(env)
-            env2[name] = (name, t)
-            return "let %s : %s := %s\n%s" % (name, lean_ty(t), s, self.seq(tail, env2, rest, ret_t, result))
+            return self.assign_stmt(st, tail, env, rest, ctx)
         if k == "return":
-            if st[1] is None:
-                return result(env, None)
-            s, t = self.ex(st[1], env, ret_t)
-            if t != ret_t:
-                raise Unsupported("return type %r vs %r" % (t, ret_t))
-            return result(env, s)
+            return self.return_stmt(st[1], env, ctx)
+        if k == "break":
+            if ctx.brk is None:
+                raise Unsupported("break outside a loop")
+            return ctx.brk(env)
+        if k == "continue":
+            if ctx.cont is None:
+                raise Unsupported("continue outside a loop")
+            return ctx.cont(env)
+        if k in ("while", "for"):
+            return self.loop_stmt(st, tail, env, rest, ctx)
         if k == "expr" and st[1][0] == "ret":
-            return self.seq([("return", st[1][1])], env, [], ret_t, result)
-        if k == "expr" and st[1][0] == "call" and (st[2] or (not tail and not rest and ret_t is None)):
-            # a call in statement position: a bit-writer primitive, another writer function, or a
-            # function with `&mut` scalar out-parameters
-            path, args = st[1][1], st[1][2]
+            return self.return_stmt(st[1][1], env, ctx)
+        if k == "expr" and st[1][0] == "brk":
+            return self.seq([("break",)], env, rest, ctx)
+        if k == "expr" and st[1][0] == "cont":
+            return self.seq([("continue",)], env, rest, ctx)
+        if k == "expr" and st[1][0] in ("call", "method") and (st[2] or (not tail and all(not f[0] for f in rest) and ctx.ret_t is None)):
+            r = self.effect_call(st[1], env)
+            if r is not None:
+                pre, val, t, env2 = r
+                if t is not None and t != UNIT and not (st[2]):
+                    raise Unsupported("call in statement position discards its result")
+                return pre + self.seq(tail, env2, rest, ctx)
+        if k == "expr":
+            e = st[1]
+            is_last = not tail and all(not f[0] for f in rest)
+            if e[0] == "ematch":
+                e = self.ematch_to_if(e, env)
+            if e[0] in ("if", "iflet") and (st[2] or not is_last or ctx.ret_t is None or self.has_effect(e)):
+                return self.if_stmt(e, tail, env, rest, ctx)
+            if e[0] == "block" and (st[2] or not is_last or self.has_effect(("if", None, e[1], None))):
+                return self.seq(e[1], env, [(tail, dict(env))] + rest, ctx)
+            if not st[2] and is_last:
+                return self.return_stmt(e, env, ctx, tail_pos=True)
+            raise Unsupported("expression statement %r" % (st,))
+        raise Unsupported("statement %s" % k)
+
+    def decl_name(self, name, env):
+        """Lean name for a Rust `let name`: fresh when it would capture a variable carried by an enclosing merged
+        `if` / loop state, or one the continuation of an enclosing duplicated branch still reads"""
+        for vs in self.protected:
+            if name in vs:
+                raise Unsupported("`let %s` shadows a variable carried through the enclosing if / loop" % name)
+        return name
+
+    def return_stmt(self, e, env, ctx, tail_pos=False):
+        if e is None:
+            pre = self.flush(env)
+            return pre + ctx.final(env, None)
+        if ctx.ret_t is None:
+            raise Unsupported("value returned from a function without result type")
+        pre_st, e2 = self.hoist_blocks(e, [], env)
+        if pre_st:
+            return self.seq(pre_st + [("return", e2)], env, [], ctx)
+        if e[0] in ("call", "method"):
+            r = self.effect_call(e, env)
+            if r is not None:
+                pre, val, t, env2 = r
+                if t != ctx.ret_t:
+                    raise Unsupported("return type %r vs %r" % (t, ctx.ret_t))
+                return pre + ctx.final(env2, val)
+        s, t = self.ex(e, env, ctx.ret_t)
+        if t != ctx.ret_t:
+            self.retry_for(e, t, ctx.ret_t)
+            raise Unsupported(("tail type %r vs %r" if tail_pos else "return type %r vs %r") % (t, ctx.ret_t))
+        pre = self.flush(env)
+        return pre + ctx.final(env, s)
+
+    def retry_for(self, e, t, want):
+        if e[0] == "path" and len(e[1]) == 1 and e[1][0] in self.deflit and is_int(want) and t != want:
+            raise Retry(e[1][0], want)
+        if e[0] == "tuple" and t[0] == "T" and want[0] == "T" and len(t[1]) == len(want[1]) == len(e[1]):
+            for x, tx, wx in zip(e[1], t[1], want[1]):
+                self.retry_for(x, tx, wx)
+
+    def effect_call(self, e, env):
+        """a call with effects on variables (writer primitive, writer function, `&mut` arguments, `&mut self` method,
+        `Option::take`, `mem::replace`, `clone_from_slice`): (lets, value string or None, type, new env); None when the
+        call is an ordinary expression"""
+        WR = "w_"
+        if e[0] == "call":
+            path, args = e[1], e[2]
             name = path[-1]
-            WR = "w_"
-            def is_sink(a):
-                a = a[2] if a[0] == "un" else a
-                return a[0] == "path" and len(a[1]) == 1 and a[1][0] in self.sinks
-            if name == "BrotliWriteBits" and len(args) == 4 and is_sink(args[2]) and is_sink(args[3]) and WR in env:
+            if name == "BrotliWriteBits" and len(args) == 4 and self.is_sink(args[2]) and self.is_sink(args[3]) and WR in env:
                 n, tn = self.ex(args[0], env, ("U", 8))
                 v, tv = self.ex(args[1], env, ("U", 64))
                 if tn[0] != "U" or tv != ("U", 64):
                     raise Unsupported("BrotliWriteBits argument types %r %r" % (tn, tv))
-                return "let %s := %s ++ [BV.Rs.WOp.bits %s %s]\n%s" % (WR, WR, n, v, self.seq(tail, env, rest, ret_t, result))
-            if name == "JumpToByteBoundary" and len(args) == 2 and is_sink(args[0]) and is_sink(args[1]) and WR in env:
-                return "let %s := %s ++ [BV.Rs.WOp.align]\n%s" % (WR, WR, self.seq(tail, env, rest, ret_t, result))
-            if name in self.fns:
-                self.note_callee(name)
-                pts, rt, outs, writer = self.fns[name]
-                plain = [a for a in args if not is_sink(a)]
-                if writer != (len(plain) != len(args)):
-                    raise Unsupported("call of %s: writer arguments do not match" % name)
-                if writer and WR not in env:
-                    raise Unsupported("call of writer %s from a non-writer" % name)
-                if len(plain) != len(pts):
-                    raise Unsupported("call of %s: arity" % name)
-                ss = []
-                out_names = []
-                for a, pt in zip(plain, pts):
-                    if a[0] == "un" and a[1] == "&mut":
-                        tgt = a[2]
-                        if tgt[0] != "path" or len(tgt[1]) != 1 or tgt[1][0] not in env:
-                            raise Unsupported("&mut argument of %s" % name)
-                        out_names.append(tgt[1][0])
-                        a = tgt
-                    sv, t = self.ex(a, env, pt)
-                    if t != pt:
-                        raise Unsupported("argument of %s: %r vs %r" % (name, t, pt))
-                    ss.append(sv)
-                if len(out_names) != len(outs):
-                    raise Unsupported("call of %s: out-parameters" % name)
-                if rt is not None:
-                    raise Unsupported("call of %s in statement position discards its result" % name)
-                binders = list(out_names) + ([("%s_new" % WR)] if writer else [])
-                callee = "(%s %s)" % (name, " ".join(ss)) if ss else name
+                pre = self.flush(env)
+                return pre + "let %s := %s ++ [BV.Rs.WOp.bits %s %s]\n" % (WR, WR, n, v), None, None, env
+            if name == "JumpToByteBoundary" and len(args) == 2 and self.is_sink(args[0]) and self.is_sink(args[1]) and WR in env:
+                return "let %s := %s ++ [BV.Rs.WOp.align]\n" % (WR, WR), None, None, env
+            if name == "replace" and len(path) >= 2 and path[-2] == "mem" and len(args) == 2:
+                root, accs, t = self.lvalue(args[0], env)
+                old = self.read_lv(env, root, accs)
+                v, tv = self.ex(args[1], env, t)
+                if tv != t:
+                    raise Unsupported("mem::replace types")
+                tmp = self.fresh("old")
+                new = self.write_lv(env, root, accs, v)
+                pre = self.flush(env)
                 env2 = dict(env)
-                pre = "let %s := %s\n" % (binders[0] if len(binders) == 1 else "(" + ", ".join(binders) + ")", callee)
-                if writer:
-                    pre += "let %s := %s ++ %s_new\n" % (WR, WR, WR)
-                return pre + self.seq(tail, env2, rest, ret_t, result)
-            raise Unsupported("call of %s in statement position" % "::".join(path))
-        if k == "expr":
-            e = st[1]
-            is_last = not tail and not rest
-            if e[0] == "if" and (st[2] or not is_last or ret_t is None or self.has_effect(e)):
-                # statement-form if: the continuation is duplicated into both branches
-                c, _ = self.ex(e[1], env, BOOL)
-                cont = [tail] + rest
-                a = self.seq(e[2], env, cont, ret_t, result)
-                b = self.seq(e[3] or [], env, cont, ret_t, result)
-                return "if %s then\n%s\nelse\n%s" % (c, indent(a), indent(b))
-            if e[0] == "block" and (st[2] or not is_last):
-                return self.seq(e[1], env, [tail] + rest, ret_t, result)
-            if not st[2] and is_last:
-                s, t = self.ex(e, env, ret_t)
-                if t != ret_t:
-                    raise Unsupported("tail type %r vs %r" % (t, ret_t))
-                return result(env, s)
-            raise Unsupported("expression statement")
-        raise Unsupported("statement %s" % k)
+                env2[tmp] = (tmp, t)
+                return pre + "let %s : %s := %s\nlet %s : %s := %s\n" % (tmp, lean_ty(t), old, env[root][0], lean_ty(env[root][1]), new), tmp, t, env2
+            if name not in self.fns:
+                return None
+            sig = self.fns[name]
+            recv_args = args
+        else:
+            m, recv, args = e[1], e[2], e[3]
+            if m == "take" and not args:
+                root, accs, t = self.lvalue(recv, env)
+                if t[0] != "O":
+                    raise Unsupported("take() on %r" % (t,))
+                old = self.read_lv(env, root, accs)
+                tmp = self.fresh("taken")
+                new = self.write_lv(env, root, accs, "none")
+                pre = self.flush(env)
+                env2 = dict(env)
+                env2[tmp] = (tmp, t)
+                return pre + "let %s : %s := %s\nlet %s : %s := %s\n" % (tmp, lean_ty(t), old, env[root][0], lean_ty(env[root][1]), new), tmp, t, env2
+            if m == "swap" and len(args) == 2:
+                root, accs, t = self.lvalue(recv, env)
+                if t[0] != "S":
+                    raise Unsupported("swap on %r" % (t,))
+                cur = self.read_lv(env, root, accs)
+                a, ta = self.ex(args[0], env, ("U", 64))
+                b, tb = self.ex(args[1], env, ("U", 64))
+                if ta != ("U", 64) or tb != ("U", 64):
+                    raise Unsupported("swap index types")
+                self.guard("decide (%s < List.length %s) && decide (%s < List.length %s)" % (a, cur, b, cur))
+                d = default_of(t[1])
+                val = "(List.set (List.set %s %s (List.getD %s %s %s)) %s (List.getD %s %s %s))" % (cur, a, cur, b, d, b, cur, a, d)
+                (new, _g) = self.scoped(lambda: self.write_lv(env, root, accs, val))
+                pre = self.flush(env)
+                return pre + "let %s : %s := %s\n" % (env[root][0], lean_ty(env[root][1]), new), None, None, env
+            if m in ("clone_from_slice", "copy_from_slice") and len(args) == 1:
+                src, ts = self.ex(args[0], env)
+                if recv[0] == "index" and recv[2][0] == "range":
+                    root, accs, t = self.lvalue(recv[1], env)
+                    cur = self.read_lv(env, root, accs)
+                    lo, hi = self.range_bounds(recv[2], env, "(List.length %s)" % cur)
+                    self.guard("decide (%s ≤ %s) && decide (%s ≤ List.length %s) && (%s - %s == List.length %s)" % (lo, hi, hi, cur, hi, lo, src))
+                    val = "(BV.Rs.splice %s %s %s)" % (cur, lo, src)
+                else:
+                    root, accs, t = self.lvalue(recv, env)
+                    cur = self.read_lv(env, root, accs)
+                    self.guard("(List.length %s == List.length %s)" % (cur, src))
+                    val = src
+                if t != ts or t[0] != "S":
+                    raise Unsupported("clone_from_slice types %r %r" % (t, ts))
+                new = self.write_lv(env, root, accs, val)
+                pre = self.flush(env)
+                return pre + "let %s : %s := %s\n" % (env[root][0], lean_ty(env[root][1]), new), None, None, env
+            if m not in self.fns or not self.fns[m].rparams or self.fns[m].rparams[0][0] != "self":
+                return None
+            name, sig = m, self.fns[m]
+            recv_args = [recv] + list(args)
+        if not sig.outs and not sig.writer:
+            return None
+        self.note_callee(name)
+        plain = [a for a in recv_args if not self.is_sink(a)]
+        if sig.writer != (len(plain) != len(recv_args)):
+            raise Unsupported("call of %s: writer arguments do not match" % name)
+        if sig.writer and WR not in env:
+            raise Unsupported("call of writer %s from a non-writer" % name)
+        ss, out_names = self.call_args(name, sig, plain, env)
+        if len(out_names) != len(sig.outs):
+            raise Unsupported("call of %s: out-parameters" % name)
+        if sig.has_guards:
+            if not sig.safe and self.okmode:
+                raise Unsupported("`_ok` needs %s_ok: mark %s \"safe\"" % (sig.lean_name, name))
+            self.guard("(%s_ok %s)" % (sig.lean_name, " ".join(ss)) if ss else "%s_ok" % sig.lean_name)
+        binders = []
+        val = None
+        env2 = dict(env)
+        if sig.ret is not None:
+            val = self.fresh("r")
+            binders.append(val)
+            env2[val] = (val, sig.ret)
+        post = ""
+        for (root, accs), (on, ot) in zip(out_names, sig.outs):
+            if not accs:
+                binders.append(env[root][0])
+            else:
+                tmp = self.fresh("out")
+                binders.append(tmp)
+                (new, _g) = self.scoped(lambda: self.write_lv(env, root, accs, tmp))
+                post += "let %s : %s := %s\n" % (env[root][0], lean_ty(env[root][1]), new)
+        binders += ([("%s_new" % WR)] if sig.writer else [])
+        callee = "(%s %s)" % (sig.lean_name, " ".join(ss)) if ss else sig.lean_name
+        pre = self.flush(env)
+        pre += "let %s := %s\n" % (binders[0] if len(binders) == 1 else "(" + ", ".join(binders) + ")", callee)
+        pre += post
+        if sig.writer:
+            pre += "let %s := %s ++ %s_new\n" % (WR, WR, WR)
+        return pre, val, sig.ret, env2
+
+    def hoist_blocks(self, e, tail, env):
+        """`f(a, { effects; v })`: statements to run first and the expression with the block replaced"""
+        if e[0] not in ("call", "method"):
+            return [], e
+        args = list(e[2] if e[0] == "call" else e[3])
+        idx = [j for j, a in enumerate(args) if a[0] == "block" and self.has_effect(("if", None, a[1], None))]
+        if not idx:
+            return [], e
+        pre = []
+        last = idx[-1]
+        for j in range(last + 1):
+            a = args[j]
+            tmp = self.fresh("arg")
+            if a[0] == "block" and j in idx:
+                body = a[1]
+                if not body or body[-1][0] != "expr" or body[-1][2]:
+                    raise Unsupported("block argument without a value")
+                for st in body[:-1]:
+                    if st[0] in ("let", "letu") and (uses_name(tail, st[1])):
+                        raise Unsupported("block argument declares %s, which the following statements use" % st[1])
+                pre += list(body[:-1]) + [("let", tmp, None, body[-1][1])]
+            else:
+                if a[0] == "un" and a[1] == "&mut":
+                    continue
+                pre.append(("let", tmp, None, a))
+            args[j] = ("path", [tmp])
+        new = (e[0], e[1], args) if e[0] == "call" else (e[0], e[1], e[2], args)
+        return pre, new
+
+    def let_stmt(self, st, tail, env, rest, ctx):
+        init = st[3]
+        ty = st[2]
+        pre_st, init2 = self.hoist_blocks(init, tail, env)
+        if pre_st:
+            return self.seq(pre_st + [(st[0], st[1], ty, init2)] + tail, env, rest, ctx)
+        # `let x = &mut a[i];` / `let d = &mut p.dist;` : an alias with the index frozen now
+        if st[0] == "let" and init[0] == "un" and init[1] == "&mut":
+            root, accs, t = self.lvalue(init[2], env)
+            pre = ""
+            frozen = []
+            env2 = dict(env)
+            for a in accs:
+                if a[0] == "i":
+                    tmp = self.fresh("ix")
+                    pre += "let %s : Nat := %s\n" % (tmp, a[1])
+                    env2[tmp] = (tmp, ("U", 64))
+                    frozen.append(("i", tmp, a[2]))
+                else:
+                    frozen.append(a)
+            self.guards = [g for g in self.guards]   # the index guard is emitted at each use
+            g = self.flush(env)
+            env2[st[1]] = (None, t, (root, frozen))
+            return g + pre + self.seq(tail, env2, rest, ctx)
+        # diverging initialiser: `let p = if c { v } else { return .. };` / `match x { Ok(v) => v, Err(_) => return .. }`
+        if init[0] in ("if", "iflet") and self.diverges(init):
+            return self.if_stmt(self.push_let(init, st), tail, env, rest, ctx)
+        if init[0] in ("call", "method"):
+            r = self.effect_call(init, env)
+            if r is not None:
+                pre, val, t, env2 = r
+                if val is None:
+                    raise Unsupported("let bound to a call without value")
+                return pre + self.bind_let(st, val, t, tail, env2, rest, ctx)
+        if init[0] == "block" and self.has_effect(("if", None, init[1], None)):
+            body = init[1]
+            if not body or body[-1][0] != "expr" or body[-1][2]:
+                raise Unsupported("block initialiser without a value")
+            for s_ in body[:-1]:
+                if s_[0] in ("let", "letu") and uses_name(tail, s_[1]):
+                    raise Unsupported("block initialiser declares %s, which the following statements use" % s_[1])
+            return self.seq(list(body[:-1]) + [(st[0], st[1], ty, body[-1][1])] + tail, env, rest, ctx)
+        if st[0] == "let" and ty is None and self.untyped(init) and init[0] != "path":
+            if st[1] in self.lit_override:
+                ty = self.lit_override[st[1]]
+            else:
+                self.deflit.add(st[1])
+        elif st[0] == "let":
+            self.deflit.discard(st[1])
+        s, t = self.ex(init, env, ty)
+        if ty and ty != t:
+            raise Unsupported("let %s: annotated %r, value %r" % (st[1], ty, t))
+        pre = self.flush(env)
+        return pre + self.bind_let(st, s, t, tail, env, rest, ctx)
+
+    def bind_let(self, st, s, t, tail, env, rest, ctx):
+        env2 = dict(env)
+        if st[0] == "let":
+            ln = self.decl_name(st[1], env)
+            env2[st[1]] = (ln, t)
+            return "let %s : %s := %s\n%s" % (ln, lean_ty(t), s, self.seq(tail, env2, rest, ctx))
+        names = []
+        walk(st[1], lambda n: names.append(n[1]) if n and n[0] == "pvar" else None)
+        for n_ in names:
+            self.decl_name(n_, env)
+        tmp = self.fresh("t")
+        binds = self.bind_pattern(st[1], tmp, t, env2)
+        lines = "let %s : %s := %s\n" % (tmp, lean_ty(t), s)
+        lines += "".join(b + "\n" for b in binds.split("; ") if b)
+        return lines + self.seq(tail, env2, rest, ctx)
+
+    @staticmethod
+    def diverges(e):
+        def block_div(b):
+            if not b:
+                return False
+            last = b[-1]
+            if last[0] in ("return", "break", "continue"):
+                return True
+            return last[0] == "expr" and last[1][0] in ("ret", "brk", "cont")
+        a = e[2] if e[0] == "if" else e[3]
+        b = e[3] if e[0] == "if" else e[4]
+        return block_div(a) or block_div(b or [])
+
+    @staticmethod
+    def push_let(init, st):
+        """move `let pat = ` into the non-diverging branches of an if / if-let initialiser"""
+        def conv(b):
+            if not b:
+                raise Unsupported("initialiser branch without value")
+            last = b[-1]
+            if last[0] in ("return", "break", "continue") or (last[0] == "expr" and last[1][0] in ("ret", "brk", "cont")):
+                return list(b)
+            if last[0] == "expr" and not last[2]:
+                if last[1][0] in ("if", "iflet") and Tr.diverges(last[1]):
+                    return list(b[:-1]) + [("expr", Tr.push_let(last[1], st), True)]
+                return list(b[:-1]) + [(st[0], st[1], st[2], last[1]), ("__leak",)]
+            raise Unsupported("initialiser branch without value")
+        if init[0] == "if":
+            return ("if", init[1], conv(init[2]), conv(init[3] or []))
+        return ("iflet", init[1], init[2], conv(init[3]), conv(init[4] or []))
+
+    def assign_stmt(self, st, tail, env, rest, ctx):
+        lhs, rhs = st[1], st[2]
+        compound = rhs[0] == "bin" and rhs[2] is st[1]
+        pre_st, rhs2 = self.hoist_blocks(rhs if not compound else rhs[3], tail, env)
+        if pre_st:
+            new_rhs = rhs2 if not compound else ("bin", rhs[1], lhs, rhs2)
+            return self.seq(pre_st + [("assign", lhs, new_rhs)] + tail, env, rest, ctx)
+        # first assignment of a variable declared without a value
+        if lhs[0] == "path" and len(lhs[1]) == 1 and lhs[1][0] in env and len(env[lhs[1][0]]) == 2 and \
+                (env[lhs[1][0]][1] is None or env[lhs[1][0]][1][0] == "?"):
+            name = lhs[1][0]
+            want = env[name][1][1] if env[name][1] else None
+            r = self.effect_call(rhs, env) if rhs[0] in ("call", "method") else None
+            if r is not None:
+                pre, s, t, env = r
+            else:
+                if want is None and name in self.lit_override:
+                    want = self.lit_override[name]
+                elif want is None and self.untyped(rhs) and rhs[0] != "path":
+                    if name in self.lit_override:
+                        want = self.lit_override[name]
+                    else:
+                        self.deflit.add(name)
+                s, t = self.ex(rhs, env, want)
+                pre = self.flush(env)
+            if want and t != want:
+                raise Unsupported("assignment to %s: %r vs %r" % (name, want, t))
+            env2 = dict(env)
+            env2[name] = (env[name][0], t)
+            return pre + "let %s : %s := %s\n%s" % (env[name][0], lean_ty(t), s, self.seq(tail, env2, rest, ctx))
+        root, accs, t = self.lvalue(lhs, env)
+        if len(env[root]) != 2:
+            raise Unsupported("assignment target")
+        if compound:
+            cur = self.read_lv(env, root, accs)
+            op = rhs[1]
+            if op in ("<<", ">>"):
+                b, tb = self.ex(rhs[3], env, None if not (rhs[3][0] == "lit" and rhs[3][2] is None) else ("U", 32))
+                s, t2 = self.arith(op, cur, b, t, tb, True), t
+            else:
+                b, tb = self.ex(rhs[3], env, t)
+                if tb != t:
+                    raise Unsupported("operands of %s= have types %r and %r" % (op, t, tb))
+                s, t2 = self.arith(op, cur, b, t, None, True), t
+            pre0 = ""
+        else:
+            r = self.effect_call(rhs, env) if rhs[0] in ("call", "method") else None
+            if r is not None:
+                pre0, s, t2, env = r
+            else:
+                pre0 = ""
+                s, t2 = self.ex(rhs, env, t)
+        if t2 != t:
+            if root in self.deflit and not accs and is_int(t2):
+                raise Retry(root, t2)
+            raise Unsupported("assignment to %s: %r vs %r" % (root, t, t2))
+        new = self.write_lv(env, root, accs, s)
+        pre = self.flush(env)
+        env2 = dict(env)
+        env2[root] = (env[root][0], env[root][1])
+        return pre0 + pre + "let %s : %s := %s\n%s" % (env[root][0], lean_ty(env[root][1]), new, self.seq(tail, env2, rest, ctx))
+
+    def if_stmt(self, e, tail, env, rest, ctx):
+        if e[0] == "iflet":
+            o, to = self.ex(e[2], env)
+            if to[0] != "O":
+                raise Unsupported("if let Some/Ok on %r" % (to,))
+            pre = self.flush(env)
+            tmp = self.fresh("opt")
+            envb = dict(env)
+            envb[tmp] = (tmp, to)
+            inner = self.fresh("some")
+            then = [("__bind", e[1], "(Option.getD %s %s)" % (tmp, default_of(to[1])), to[1])] + list(e[3])
+            c = "(Option.isSome %s)" % tmp
+            return pre + "let %s : %s := %s\n" % (tmp, lean_ty(to), o) + self.if_core(c, then, e[4], tail, envb, rest, ctx)
+        c, _ = self.ex(e[1], env, BOOL)
+        pre = self.flush(env)
+        return pre + self.if_core(c, e[2], e[3], tail, env, rest, ctx)
+
+    def if_core(self, c, then, els, tail, env, rest, ctx):
+        els = els or []
+        node = ("if", None, then, els)
+        has_ret, has_brk = self.escapes([then, els])
+        leak = any(s and s[0] == "__leak" for b in (then, els) for s in b)
+        cont_len = len(tail) + sum(len(f[0]) for f in rest)
+        small = cont_len == 0 or (cont_len == 1 and not rest and tail[0][0] in ("expr", "return") and
+                                  not (tail[0][0] == "expr" and tail[0][1][0] in ("if", "iflet", "ematch", "block", "call", "method")))
+        if has_ret or has_brk or leak or small:
+            # the continuation is duplicated into both branches
+            frame = (tail, None if leak else dict(env))
+            a = self.seq_branch(then, env, [frame] + rest, ctx)
+            b = self.seq_branch(els, env, [frame] + rest, ctx)
+            return "if %s then\n%s\nelse\n%s" % (c, indent(a), indent(b))
+        # merged: the variables either branch assigns become the value of the `if`
+        vars_ = self.assigned([then, els], env)
+        ends = []
+
+        def fall(env_):
+            ends.append(env_)
+            return "\0"      # placeholder for the tuple, filled in once both branches are known
+        bctx = Ctx(ctx.ret_t, None, None, fall)
+        self.protected.append(set(vars_))
+        try:
+            a = self.seq_branch(then, env, [], bctx)
+            b = self.seq_branch(els, env, [], bctx)
+        finally:
+            self.protected.pop()
+        # variables declared without a value and assigned in both branches
+        typed = {}
+        for v in vars_:
+            ts = [en[v][1] for en in ends]
+            if any(t is None or t[0] == "?" for t in ts):
+                if all(t is None or t[0] == "?" for t in ts):
+                    typed[v] = None
+                    continue
+                raise Unsupported("%s is assigned in one branch only before its first use" % v)
+            if any(t != ts[0] for t in ts):
+                good = [t for t in ts if "('I', 32)" not in repr(t)]
+                if good and v not in self.lit_override and all(t == good[0] for t in good):
+                    raise Retry(v, good[0])
+                raise Unsupported("%s has different types in the branches" % v)
+            typed[v] = ts[0]
+        vars_ = [v for v in vars_ if typed[v] is not None]
+        if not vars_:
+            return self.seq(tail, env, rest, ctx)
+        env2 = dict(env)
+        for v in vars_:
+            env2[v] = (env[v][0], typed[v])
+        tup, tty = self.tuple_of(env2, vars_)
+        a = a.replace("\0", tup)
+        b = b.replace("\0", tup)
+        if len(vars_) == 1:
+            head = "let %s : %s := (if %s then\n%s\nelse\n%s)\n" % (tup, tty, c, indent(a), indent(b))
+        else:
+            head = "let %s := ((if %s then\n%s\nelse\n%s) : %s)\n" % (tup, c, indent(a), indent(b), tty)
+        return head + self.seq(tail, env2, rest, ctx)
+
+    def seq_branch(self, stmts, env, rest, ctx):
+        stmts = list(stmts)
+        if stmts and stmts[0][0] == "__bind":
+            _, pat, s, t = stmts[0]
+            env = dict(env)
+            binds = self.bind_pattern(pat, s, t, env)
+            return "".join(b + "\n" for b in binds.split("; ") if b) + self.seq_branch2(stmts[1:], env, rest, ctx)
+        return self.seq_branch2(stmts, env, rest, ctx)
+
+    def seq_branch2(self, stmts, env, rest, ctx):
+        stmts = [s for s in stmts if s[0] != "__leak"]
+        return self.seq(stmts, env, rest, ctx)
+
+    def loop_stmt(self, st, tail, env, rest, ctx):
+        body = st[2] if st[0] == "while" else st[3]
+        has_ret, has_brk = self.escapes(body)
+        has_break = Tr.last_has_break
+        vars_ = self.assigned([st[1], body] if st[0] == "while" else body, env)
+        for v in vars_:
+            if env[v][1] is None or env[v][1][0] == "?":
+                raise Unsupported("%s is first assigned inside a loop" % v)
+        tup, tty = self.tuple_of(env, vars_)
+        pat = self.pat_of(env, vars_)
+        pre = ""
+        head_lets = ""
+        benv = dict(env)
+        if st[0] == "for":
+            lo, hi, ivar, it, head_lets, rev = self.for_head(st, env, benv, vars_)
+            pre = self.flush(env)
+        simple = st[0] == "for" and not has_ret and not has_brk
+        kind = "" if simple else ("R" if has_ret else ("C" if st[0] == "for" else ""))
+        if simple:
+            fall = lambda env_: self.tuple_of(env_, vars_)[0]
+            bctx = Ctx(ctx.ret_t, None, None, fall)
+        else:
+            nxt = lambda env_: "BV.Rs.Ctl.next %s" % self.tuple_of(env_, vars_)[0]
+            brk = lambda env_: "BV.Rs.Ctl.brk %s" % self.tuple_of(env_, vars_)[0]
+            wrapr = (lambda s: "BV.Rs.Ctl.ret (%s)" % s) if has_ret else None
+            bctx = Ctx(ctx.ret_t, ctx.plain_final, wrapr, nxt, brk, nxt)
+        self.protected.append(set(vars_))
+        try:
+            if st[0] == "while":
+                (c, _), gs = self.scoped(lambda: self.ex(st[1], benv, BOOL))
+                self.guards += gs
+                gpre = self.flush(benv)
+                b = self.seq(body, benv, [], bctx)
+                inner = gpre + "if %s then\n%s\nelse\n  BV.Rs.Ctl.brk %s" % (c, indent(b), tup if not self.okmode or not gs else self.tuple_of(benv, vars_)[0])
+            else:
+                inner = head_lets + self.seq(body, benv, [], bctx)
+        finally:
+            self.protected.pop()
+        if st[0] == "while":
+            loop = "BV.Rs.whileLoop%s %s (%s : %s) (fun %s =>\n%s)" % ("R" if has_ret else "", self.fuel, tup, tty, pat, indent(inner))
+        else:
+            loop = "BV.Rs.forRange%s %s %s (%s : %s) (fun %s %s =>\n%s)" % (kind, lo, hi, tup, tty, it, pat, indent(inner))
+        if has_ret:
+            if st[0] == "while" and st[1] == ("bool", True) and not has_break and not tail and not rest and ctx.ret_t is not None:
+                # `loop { .. return .. }` as the last statement: only reached when the fuel runs out
+                cont = ctx.final(env, default_of(ctx.ret_t))
+            else:
+                cont = self.seq(tail, env, rest, ctx)
+            return pre + "match %s with\n| .ret r_ => %s\n| .done %s =>\n%s" % (loop, ctx.wrap("r_"), pat, indent(cont))
+        return pre + "let %s := %s\n%s" % (pat, loop, self.seq(tail, env, rest, ctx))
+
+    def for_head(self, st, env, benv, vars_):
+        pat, it = st[1], st[2]
+        rev = False
+        if it[0] == "method" and it[1] == "rev" and not it[3]:
+            rev = True
+            it = it[2]
+        enum = False
+        if it[0] == "method" and it[1] == "enumerate" and not it[3]:
+            enum = True
+            it = it[2]
+        if it[0] == "rangei":
+            it = ("range", it[1], it[2], True)
+        if it[0] == "range":
+            if enum or it[1] is None or it[2] is None:
+                raise Unsupported("for over this range")
+            lo, tl = self.ex(it[1], env, None if not (it[1][0] == "lit" and it[1][2] is None) else None)
+            hi, th = self.ex(it[2], env, None)
+            lit_lo = it[1][0] == "lit" and it[1][2] is None
+            lit_hi = it[2][0] == "lit" and it[2][2] is None
+            if lit_lo and not lit_hi:
+                lo, tl = self.ex(it[1], env, th)
+            elif lit_hi and not lit_lo:
+                hi, th = self.ex(it[2], env, tl)
+            elif lit_lo and lit_hi:
+                lo, tl = self.ex(it[1], env, ("U", 64))
+                hi, th = self.ex(it[2], env, ("U", 64))
+            if tl != th or tl[0] != "U":
+                raise Unsupported("for range over %r .. %r" % (tl, th))
+            if it[3]:
+                hi = "(%s + 1)" % hi
+            if pat[0] == "pwild":
+                name = self.fresh("i")
+            elif pat[0] == "pvar":
+                name = pat[1]
+            else:
+                raise Unsupported("for pattern")
+            if name in vars_:
+                raise Unsupported("loop variable is assigned in the body")
+            lets = ""
+            if rev:
+                k_ = self.fresh("k")
+                lets = "let %s : Nat := %s + %s - 1 - %s\n" % (name, lo, hi, k_)
+                benv[name] = (name, tl)
+                return lo, hi, name, k_, lets, rev
+            benv[name] = (name, tl)
+            return lo, hi, name, name, lets, rev
+        # `for x in xs.iter()` / `for (i, x) in xs.iter().enumerate()` / `for x in xs[..n].iter()`
+        if it[0] == "method" and it[1] in ("iter", "into_iter") and not it[3]:
+            it = it[2]
+        r = lv_root(it[1] if it[0] == "index" else it)
+        if r in vars_:
+            raise Unsupported("the loop body assigns the list it iterates over")
+        xs, tx = self.ex(it, env)
+        if tx[0] != "S":
+            raise Unsupported("for over %r" % (tx,))
+        if rev:
+            raise Unsupported("reversed iteration over a list")
+        iname = self.fresh("i")
+        if enum:
+            if pat[0] != "ptuple" or len(pat[1]) != 2 or pat[1][0][0] not in ("pvar", "pwild"):
+                raise Unsupported("enumerate pattern")
+            if pat[1][0][0] == "pvar":
+                iname = pat[1][0][1]
+            pat = pat[1][1]
+        benv[iname] = (iname, ("U", 64))
+        lets = self.bind_pattern(pat, "(List.getD %s %s %s)" % (xs, iname, default_of(tx[1])), tx[1], benv)
+        lets = "".join(b + "\n" for b in lets.split("; ") if b)
+        return "0", "(List.length %s)" % xs, iname, iname, lets, rev
 
     def has_effect(self, e):
         def st_eff(stmts):
             for s in stmts or []:
-                if s[0] in ("assign", "return") or (s[0] == "expr" and s[1][0] in ("ret", "call")):
+                if s[0] in ("assign", "return", "break", "continue", "while", "for") or (s[0] == "expr" and s[1][0] in ("ret", "call", "brk", "cont")):
                     return True
-                if s[0] == "expr" and s[1][0] == "if" and self.has_effect(s[1]):
+                if s[0] == "expr" and s[1][0] == "method" and (s[2] or s[1][1] in ("clone_from_slice", "copy_from_slice", "take", "swap")):
+                    return True
+                if s[0] == "let" and s[3][0] == "un" and s[3][1] == "&mut":
+                    return True
+                if s[0] == "expr" and s[1][0] in ("if", "iflet") and self.has_effect(s[1]):
+                    return True
+                if s[0] == "expr" and s[1][0] == "ematch" and any(st_eff(b) for _, b in s[1][2]):
                     return True
                 if s[0] == "expr" and s[1][0] == "block" and st_eff(s[1][1]):
                     return True
             return False
+        if e[0] == "iflet":
+            return st_eff(e[3]) or st_eff(e[4])
         return st_eff(e[2]) or st_eff(e[3])
 
 
@@ -831,8 +2290,21 @@ LEAN_KEYWORDS = {"prefix", "postfix", "infix", "infixl", "infixr", "notation", "
                  "obtain", "using", "Type", "Prop", "Sort", "exists", "forall"}
 
 
-def struct_fields(path, sname):
-    """scalar fields (name, type) of `struct sname` in file `path`, in declaration order"""
+def skip_attr(toks, j):
+    d = 0
+    j += 1
+    while True:
+        if toks[j][1] == "[":
+            d += 1
+        elif toks[j][1] == "]":
+            d -= 1
+            if d == 0:
+                return j + 1
+        j += 1
+
+
+def struct_field_tokens(path, sname):
+    """[(field name, type tokens)] of `struct sname` in file `path`, in declaration order"""
     toks = G.tokens_of(path)
     for i in range(len(toks) - 2):
         if toks[i][1] == "struct" and toks[i + 1][1] == sname:
@@ -843,21 +2315,10 @@ def struct_fields(path, sname):
                 j += 1
             j += 1
             out = []
-            depth = 0
-            while not (toks[j][1] == "}" and depth == 0):
+            while toks[j][1] != "}":
                 # [pub [(crate)]] name : type ,
                 if toks[j][1] == "#":
-                    d = 0
-                    j += 1
-                    while True:
-                        if toks[j][1] == "[":
-                            d += 1
-                        elif toks[j][1] == "]":
-                            d -= 1
-                            if d == 0:
-                                j += 1
-                                break
-                        j += 1
+                    j = skip_attr(toks, j)
                     continue
                 if toks[j][1] == "pub":
                     j += 1
@@ -876,16 +2337,99 @@ def struct_fields(path, sname):
                         d += 1
                     elif toks[j][1] in (">", ")", "]"):
                         d -= 1
-                    tt.append(toks[j][1])
+                    elif toks[j][1] == ">>":
+                        d -= 2
+                    tt.append(toks[j])
                     j += 1
                 if toks[j][1] == ",":
                     j += 1
-                if len(tt) == 1 and tt[0] in INT_TYPES:
-                    out.append((name, INT_TYPES[tt[0]]))
-                elif tt == ["bool"]:
-                    out.append((name, BOOL))
+                out.append((name, tt))
             return out
     raise Unsupported("struct %s not found in %s" % (sname, path))
+
+
+def struct_fields(path, sname):
+    """scalar fields (name, type) of `struct sname` in file `path`, in declaration order"""
+    out = []
+    for name, tt in struct_field_tokens(path, sname):
+        tv = [t[1] for t in tt]
+        if len(tv) == 1 and tv[0] in INT_TYPES:
+            out.append((name, INT_TYPES[tv[0]]))
+        elif tv == ["bool"]:
+            out.append((name, BOOL))
+    return out
+
+
+def struct_fields_v(path, sname, known_structs, enums):
+    """the fields of `struct sname` the by-value mode supports: integers, bool, listed fieldless enums, listed
+    structs, Option / tuples / arrays / slices of those"""
+    def ok(t):
+        if t == BOOL or t[0] in "UI":
+            return True
+        if t[0] == "ST":
+            if t[1] in enums:
+                return True
+            return t[1] in known_structs
+        if t[0] in ("S", "O"):
+            return ok(t[1])
+        if t[0] == "T":
+            return all(ok(x) for x in t[1])
+        return False
+
+    def fix(t):
+        if t[0] == "ST" and t[1] in enums:
+            return ("E", t[1])
+        if t[0] in ("S", "O"):
+            return (t[0], fix(t[1]))
+        if t[0] == "T":
+            return ("T", [fix(x) for x in t[1]])
+        return t
+    out = []
+    for name, tt in struct_field_tokens(path, sname):
+        try:
+            p = P(list(tt))
+            t = p.ty()
+            if p.i != len(tt) or not ok(t):
+                continue
+        except (Unsupported, IndexError):
+            continue
+        if name in LEAN_KEYWORDS:
+            name += "_"
+        out.append((name, fix(t)))
+    return out
+
+
+def enum_variants(path, ename):
+    toks = G.tokens_of(path)
+    for i in range(len(toks) - 2):
+        if toks[i][1] == "enum" and toks[i + 1][1] == ename:
+            j = i + 2
+            while toks[j][1] != "{":
+                j += 1
+            j += 1
+            out = {}
+            nxt = 0
+            while toks[j][1] != "}":
+                if toks[j][1] == "#":
+                    j = skip_attr(toks, j)
+                    continue
+                name = toks[j][1]
+                j += 1
+                if toks[j][1] in ("(", "{"):
+                    raise Unsupported("enum %s has a variant with fields" % ename)
+                if toks[j][1] == "=":
+                    j += 1
+                    ex = []
+                    while toks[j][1] not in (",", "}"):
+                        ex.append(toks[j])
+                        j += 1
+                    nxt = G.ExprParser(ex, {}).parse()
+                out[name] = nxt
+                nxt += 1
+                if toks[j][1] == ",":
+                    j += 1
+            return out
+    raise Unsupported("enum %s not found in %s" % (ename, path))
 
 
 def uses_field(toks, pn, fname):
@@ -895,70 +2439,137 @@ def uses_field(toks, pn, fname):
     return False
 
 
-def translate(path, fname, occ, consts, fns, lean_name=None, structs=None, self_ty=None):
+def fix_enum_types(t, enums):
+    if t is None:
+        return None
+    if t[0] == "ST" and t[1] in enums:
+        return ("E", t[1])
+    if t[0] == "R":
+        return ("R", t[1], fix_enum_types(t[2], enums))
+    if t[0] in ("S", "O"):
+        return (t[0], fix_enum_types(t[1], enums))
+    if t[0] == "T":
+        return ("T", [fix_enum_types(x, enums) for x in t[1]])
+    return t
+
+
+def translate(path, fname, occ, consts, fns, lean_name=None, structs=None, self_ty=None, ctxinfo=None, item=None):
+    ctxinfo = ctxinfo or {}
+    item = item or {}
+    TYARGS.clear()
+    for k_, v_ in list((ctxinfo.get("tyargs") or {}).items()) + list((item.get("tyargs") or {}).items()):
+        TYARGS[k_] = INT_TYPES[v_]
     toks = G.find_fn(G.tokens_of(path), fname, occ)
     toks = [(k, v + "_") if (k == "id" and v in LEAN_KEYWORDS) else (k, v) for k, v in toks]
     name, params, ret, body = P(list(toks)).fn()
-    tr = Tr(consts, fns)
-    tr.cur_file = path
-    env = {}
-    lean_params = []
-    outs = []
-    ptypes = []
-    writer = False
-    sink_ix = [pn for pn, pt in params if pt == ("R", True, ("U", 64)) and pn == "storage_ix"]
-    sink_st = [pn for pn, pt in params if pt == ("R", True, ("S", ("U", 8))) and pn == "storage"]
-    if sink_ix and sink_st:
-        writer = True
-        tr.sinks = {sink_ix[0], sink_st[0]}
-        env["w_"] = ("w_", ("W",))
-    for pn, pt in params:
-        if pn in tr.sinks:
-            continue
-        st = pt[2] if pt[0] == "R" else pt
-        if st[0] == "ST":
-            if pt[0] == "R" and pt[1]:
-                raise Unsupported("&mut struct parameter %s" % pn)
-            sname = self_ty if st[1] == "Self" else st[1]
-            if not structs or sname not in structs:
-                raise Unsupported("struct type %s of parameter %s is not listed" % (sname, pn))
-            env[pn] = (pn, ("ST", sname))
-            for fn_, ft in struct_fields(structs[sname], sname):
-                if uses_field(toks, pn, fn_):
-                    key = pn + "_" + fn_
-                    env[key] = (key, ft)
-                    lean_params.append("(%s : %s)" % (key, lean_ty(ft)))
-                    ptypes.append(ft)
-            continue
-        if pt[0] == "R":
-            inner = pt[2]
-            if pt[1]:
-                if inner == BOOL or inner[0] in "UI":
-                    outs.append((pn, inner))
-                    env[pn] = (pn, inner)
-                    lean_params.append("(%s : %s)" % (pn, lean_ty(inner)))
-                    ptypes.append(inner)
-                    continue
-                raise Unsupported("&mut %r parameter" % (inner,))
-            pt = inner
-        env[pn] = (pn, pt)
-        lean_params.append("(%s : %s)" % (pn, lean_ty(pt)))
-        ptypes.append(pt)
-    res_types = ([ret] if ret else []) + [t for _, t in outs] + ([("W",)] if writer else [])
-    if not res_types:
-        raise Unsupported("function without result")
-
-    def result(env_, val):
-        parts = ([val] if ret else []) + [env_[n][0] for n, _ in outs] + (["w_"] if writer else [])
-        if ret and val is None:
-            raise Unsupported("missing return value")
-        return parts[0] if len(parts) == 1 else "(" + ", ".join(parts) + ")"
-
-    body_s = tr.seq(body, env, [], ret, result)
-    if writer:
-        body_s = "let w_ : List BV.Rs.WOp := []\n" + body_s
+    enums = ctxinfo.get("enums", {})
+    structs_v = ctxinfo.get("structs_v", {})
+    ret = fix_enum_types(ret, enums)
+    if ret is not None and ret[0] == "ST" and ret[1] == "Self":
+        ret = ("ST", self_ty)
+    params = [(pn, fix_enum_types(pt, enums)) for pn, pt in params]
     lname = lean_name or name
-    rt = " × ".join(lean_ty(t) for t in res_types)
+
+    overrides = {}
+
+    def run(okmode):
+        for _ in range(8):
+            try:
+                return run1(okmode)
+            except Retry as r:
+                if r.name in overrides:
+                    raise Unsupported("conflicting integer types for %s" % r.name)
+                overrides[r.name] = r.ty
+        raise Unsupported("too many literal-typed variables")
+
+    def run1(okmode):
+        tr = Tr(consts, fns)
+        tr.lit_override = overrides
+        tr.cur_file = path
+        tr.okmode = okmode
+        tr.structs_v = structs_v
+        tr.enums = enums
+        tr.tables = ctxinfo.get("tables", {})
+        tr.self_ty = self_ty
+        if item.get("fuel"):
+            tr.fuel = "(%s)" % item["fuel"]
+        env = {}
+        lean_params = []
+        outs = []
+        rparams = []
+        writer = False
+        sink_ix = [pn for pn, pt in params if pt == ("R", True, ("U", 64)) and pn == "storage_ix"]
+        sink_st = [pn for pn, pt in params if pt == ("R", True, ("S", ("U", 8))) and pn == "storage"]
+        if sink_ix and sink_st:
+            writer = True
+            tr.sinks = {sink_ix[0], sink_st[0]}
+            env["w_"] = ("w_", ("W",))
+        for pn, pt in params:
+            if pn in tr.sinks:
+                continue
+            st = pt[2] if pt[0] == "R" else pt
+            ln = "self_" if pn == "self" else pn
+            if st[0] == "ST":
+                sname = self_ty if st[1] == "Self" else st[1]
+                if sname in structs_v:
+                    t = ("ST", sname)
+                    env[pn] = (ln, t)
+                    lean_params.append("(%s : %s)" % (ln, sname))
+                    mut = pt[0] == "R" and pt[1]
+                    if mut:
+                        outs.append((pn, t))
+                    rparams.append((pn, "mut" if mut else "val", t, None))
+                    continue
+                if pt[0] == "R" and pt[1]:
+                    raise Unsupported("&mut struct parameter %s (struct %s is not listed under structs_v)" % (pn, sname))
+                if not structs or sname not in structs:
+                    raise Unsupported("struct type %s of parameter %s is not listed" % (sname, pn))
+                env[pn] = (pn, ("STF", sname))
+                flat = []
+                for fn_, ft in struct_fields(structs[sname], sname):
+                    if uses_field(toks, pn, fn_):
+                        key = pn + "_" + fn_
+                        env[key] = (key, ft)
+                        lean_params.append("(%s : %s)" % (key, lean_ty(ft)))
+                        flat.append((fn_, ft))
+                rparams.append((pn, "val", ("STF", sname), flat))
+                continue
+            if pt[0] == "R":
+                inner = pt[2]
+                if pt[1]:
+                    lean_ty(inner)
+                    outs.append((pn, inner))
+                    env[pn] = (ln, inner)
+                    lean_params.append("(%s : %s)" % (ln, lean_ty(inner, True) if inner[0] in ("S", "O", "T") else lean_ty(inner)))
+                    rparams.append((pn, "mut", inner, None))
+                    continue
+                pt = inner
+            env[pn] = (ln, pt)
+            lean_params.append("(%s : %s)" % (ln, lean_ty(pt)))
+            rparams.append((pn, "val", pt, None))
+        res_types = ([ret] if ret else []) + [t for _, t in outs] + ([("W",)] if writer else [])
+        if not res_types:
+            raise Unsupported("function without result")
+
+        def plain_final(env_, val):
+            if okmode:
+                return "ok_"
+            parts = ([val] if ret else []) + [env_[n][0] for n, _ in outs] + (["w_"] if writer else [])
+            if ret and val is None:
+                raise Unsupported("missing return value")
+            return parts[0] if len(parts) == 1 else "(" + ", ".join(parts) + ")"
+        if okmode:
+            env["ok_"] = ("ok_", BOOL)
+        ctx = Ctx(ret, plain_final, lambda s: s, lambda env_: plain_final(env_, None))
+        body_s = tr.seq(body, env, [], ctx)
+        if writer:
+            body_s = "let w_ : List BV.Rs.WOp := []\n" + body_s
+        if okmode:
+            body_s = "let ok_ : Bool := true\n" + body_s
+        return tr, body_s, lean_params, res_types, outs, rparams, writer
+
+    tr, body_s, lean_params, res_types, outs, rparams, writer = run(False)
+    rt = " × ".join(lean_ty(t, len(res_types) > 1) if t[0] in ("T",) else lean_ty(t) for t in res_types)
     doc = "`fn %s` of `%s` (occurrence %d), translated by tools/rs2lean.py" % (fname, path, occ)
     if outs:
         doc += "; results: %s" % ", ".join((["return value"] if ret else []) + ["*" + n for n, _ in outs])
@@ -967,43 +2578,126 @@ def translate(path, fname, occ, consts, fns, lean_name=None, structs=None, self_
     if tr.asserts:
         doc += "; dropped: " + " | ".join(a.replace("-/", "- /") for a in tr.asserts)
     text = "/-- %s -/\ndef %s %s : %s :=\n%s\n" % (doc, lname, " ".join(lean_params), rt, indent(body_s))
-    sig = (ptypes, ret if not outs else ("T", res_types), [t for _, t in outs] if not ret else [])
-    # callers may use functions that only return a value
-    return text, (ptypes, ret, outs, writer)
+    sig = Sig(rparams, ret, outs, writer, tr.nguards > 0, lname)
+    err = None
+    if item.get("safe"):
+        try:
+            tr2, body2, lp2, _, _, _, _ = run(True)
+            text += "\n/-- no-panic condition of `fn %s` (debug build): the conjunction, along the executed path, of every index-in-bounds, no-overflow, shift-in-range, non-zero-divisor, unwrap and assert condition -/\ndef %s_ok %s : Bool :=\n%s\n" % (
+                fname, lname, " ".join(lp2), indent(body2))
+            sig.safe = True
+        except Unsupported as e:
+            err = "%s_ok: %s" % (lname, e)
+    return text, sig, tr, err
 
 
 PRELUDE_IMPORT = "import BV.Model.RsPrelude\n"
 
 
+def emit_struct(sname, fields):
+    lines = ["/-- the supported fields of the Rust `struct %s` (by-value mode of tools/rs2lean.py) -/" % sname,
+             "structure %s where" % sname]
+    for fn_, ft in fields:
+        lines.append("  %s : %s" % (fn_, lean_ty(ft)))
+    lines.append("  deriving Repr, DecidableEq, Inhabited")
+    return "\n".join(lines) + "\n"
+
+
 def main():
-    outdir = sys.argv[1] if len(sys.argv) > 1 else os.path.join(os.path.dirname(HERE), "lean", "BV", "Gen")
-    items = json.load(open(os.path.join(HERE, "rs2lean_items.json")))
+    argv = sys.argv[1:]
+    opts = {}
+    pos = []
+    i = 0
+    while i < len(argv):
+        if argv[i] in ("--repo", "--items", "--only"):
+            opts[argv[i][2:]] = argv[i + 1]
+            i += 2
+        else:
+            pos.append(argv[i])
+            i += 1
+    if "repo" in opts:
+        G.REPO = opts["repo"]
+    outdir = pos[0] if pos else os.path.join(os.path.dirname(HERE), "lean", "BV", "Gen")
+    items = json.load(open(opts.get("items") or os.path.join(HERE, "rs2lean_items.json")))
+    only = set(opts["only"].split(",")) if "only" in opts else None
+    harvested = {name: (lname or name) for _, name, lname in G.CONST_ITEMS}
+    harvested_file = {name: f for f, name, _ in G.CONST_ITEMS}
     report = {"files": {}, "errors": []}
     for prop, spec in items.items():
+        if only is not None and prop not in only:
+            continue
+        FN_FILES.clear()
         consts = {}
+        tables = {}
+        local_defs = []
+        uses_source = False
+        enums = {}
+        for en, ef in (spec.get("enums") or {}).items():
+            try:
+                enums[en] = enum_variants(ef, en)
+            except (Unsupported, G.GenError, OSError, IndexError) as e:
+                report["errors"].append("%s: enum %s: %s" % (prop, en, e))
         for c in spec.get("consts", []):
             try:
                 toks = G.tokens_of(c["file"])
                 ty, ex = G.find_item(toks, c["name"])
                 v = G.ExprParser(ex, {k: vv[0] for k, vv in consts.items()}).parse()
+                if isinstance(v, list):
+                    # a table: element type from the declaration `[T; N]`
+                    tp = P([(k, vv + "_") if (k == "id" and vv in LEAN_KEYWORDS) else (k, vv) for k, vv in ty])
+                    tt = tp.ty()
+                    if tt[0] != "S":
+                        raise Unsupported("table type")
+                    et = tt[1]
+                    if et[0] == "ST":
+                        flds = struct_fields(c.get("struct_file", c["file"]), et[1])
+                        et = ("TS", et[1], flds)
+                        if not v or not isinstance(v[0], tuple) or len(v[0]) != len(flds):
+                            raise Unsupported("table of struct %s: fields" % tt[1][1])
+                    if c["name"] in harvested and harvested_file[c["name"]] == c["file"]:
+                        tables[c["name"]] = ("BV.Gen.%s" % harvested[c["name"]], ("S", et))
+                        uses_source = True
+                    else:
+                        nm = c.get("lean", c["name"])
+                        local_defs.append("/-- `%s` in `%s` -/\ndef %s : %s := %s\n" % (c["name"], c["file"], nm, G.lean_type(v), G.lean_val(v)))
+                        tables[c["name"]] = (nm, ("S", et))
+                    continue
                 tname = [t[1] for t in ty if t[0] == "id"]
                 consts[c["name"]] = (v, INT_TYPES.get(tname[-1]) if tname else None)
-            except (G.GenError, OSError, IndexError) as e:
+            except (Unsupported, G.GenError, OSError, IndexError) as e:
                 report["errors"].append("%s: const %s: %s" % (prop, c["name"], e))
+        structs_v = {}
+        struct_text = []
+        TYARGS.clear()
+        for k_, v_ in (spec.get("tyargs") or {}).items():
+            TYARGS[k_] = INT_TYPES[v_]
+        for sn, sf in (spec.get("structs_v") or {}).items():
+            try:
+                structs_v[sn] = struct_fields_v(sf, sn, set(structs_v), enums)
+                struct_text.append(emit_struct(sn, structs_v[sn]))
+            except (Unsupported, G.GenError, OSError, IndexError, AssertionError) as e:
+                report["errors"].append("%s: struct %s: %s" % (prop, sn, e))
+        ctxinfo = {"enums": enums, "structs_v": structs_v, "tables": tables, "tyargs": spec.get("tyargs")}
         fns = {}
-        out = ["-- GENERATED by tools/rs2lean.py from the current /repo working tree. Do not edit.",
-               PRELUDE_IMPORT, "set_option linter.unusedVariables false", "", "namespace BV.Gen.Fn%s" % prop, ""]
+        body = []
         for it in spec["fns"]:
             try:
-                text, sig = translate(it["file"], it["fn"], it.get("occ", 0), consts, fns, it.get("lean"),
-                                      spec.get("structs"), it.get("self"))
-                out.append(text)
+                text, sig, tr, err = translate(it["file"], it["fn"], it.get("occ", 0), consts, fns, it.get("lean"),
+                                               spec.get("structs"), it.get("self"), ctxinfo, it)
+                body.append(text)
                 fns[it["fn"]] = sig
                 FN_FILES[it["fn"]] = it["file"]
                 if it.get("lean"):
                     fns[it["lean"]] = sig
-            except (Unsupported, G.GenError, OSError, IndexError) as e:
+                if it.get("self"):
+                    fns["%s::%s" % (it["self"], it["fn"])] = sig
+                if err:
+                    report["errors"].append("%s: fn %s (%s): %s" % (prop, it["fn"], it["file"], err))
+            except (Unsupported, G.GenError, OSError, IndexError, KeyError, AssertionError) as e:
                 report["errors"].append("%s: fn %s (%s): %s" % (prop, it["fn"], it["file"], e))
+        out = ["-- GENERATED by tools/rs2lean.py from the current /repo working tree. Do not edit.",
+               PRELUDE_IMPORT + ("import BV.Gen.Source\n" if uses_source else ""), "set_option linter.unusedVariables false", "", "namespace BV.Gen.Fn%s" % prop, ""]
+        out += struct_text + local_defs + body
         out.append("end BV.Gen.Fn%s" % prop)
         content = "\n".join(out) + "\n"
         p = os.path.join(outdir, "Fn%s.lean" % prop)
